@@ -310,5 +310,2132 @@ theorem eq_iff (a : RT) : ∀ b, eq a b = true ↔ a = b := by
             rw [ih p (by simp) q, ih2 (fun r hr => ih r (by simp [hr])) qs]
       rw [this qs]
 
+
+/-! ### slicing -/
+
+theorem pyNorm_nat (n m : Nat) : pyNorm n (m : Int) = min m n := by
+  simp [pyNorm]; omega
+theorem strSlice_take {α : Type} (s : List α) (m : Nat) : strSlice s none (some (m : Int)) = s.take m := by
+  simp only [strSlice, sliceIdx, pyNorm_nat, List.drop_zero, Nat.sub_zero]
+  rcases Nat.le_total m s.length with h | h
+  · rw [Nat.min_eq_left h]
+  · rw [Nat.min_eq_right h, List.take_of_length_le h, List.take_of_length_le (Nat.le_refl _)]
+theorem strSlice_drop {α : Type} (s : List α) (m : Nat) : strSlice s (some (m : Int)) none = s.drop m := by
+  simp only [strSlice, sliceIdx, pyNorm_nat]
+  rcases Nat.le_total m s.length with h | h
+  · rw [Nat.min_eq_left h, List.take_of_length_le (by simp)]
+  · rw [Nat.min_eq_right h, List.drop_of_length_le h, List.drop_of_length_le (Nat.le_refl _)]; simp
+
+/-- the slicing law for one text -/
+def SliceOK (t : RT) : Prop := ∀ ctx i j, sem ctx (getSlice t i j) = strSlice (sem ctx t) i j
+
+theorem lenL_reverse (l : List RT) : lenL l.reverse = lenL l := by
+  rw [← semL_length [], ← semL_length [] l, semL_eq_flatMap, semL_eq_flatMap]
+  simp only [List.length_flatMap, List.map_reverse, List.sum_reverse]
+
+theorem semL_begLoop (ctx : List Markup) (ps : List RT) (hP : ∀ p ∈ ps, SliceOK p) (N L : Nat) (h : L ≤ N) :
+    semL ctx (begLoop id (fun p m => getSlice p none (some m)) ps (N : Int) (L : Int))
+      = (semL ctx ps).take (N - L) := by
+  induction ps generalizing L with
+  | nil => simp [begLoop, semL]
+  | cons p ps ih =>
+    simp only [begLoop, id]
+    split
+    · rename_i hc
+      have hc' : N - L < len p := by omega
+      have e : (N : Int) - (L : Int) = ((N - L : Nat) : Int) := by omega
+      simp only [semL, List.append_nil]
+      rw [hP p (by simp) ctx, e, strSlice_take]
+      rw [List.take_append_of_le_length (by rw [sem_length]; omega)]
+    · rename_i hc
+      have e : (L : Int) + (len p : Int) = ((L + len p : Nat) : Int) := by omega
+      rw [e]
+      simp only [semL]
+      rw [ih (fun q hq => hP q (by simp [hq])) (L + len p) (by omega)]
+      have h1 : (sem ctx p).take (N - L) = sem ctx p := List.take_of_length_le (by rw [sem_length]; omega)
+      rw [List.take_append, h1, sem_length]
+      congr 2; omega
+
+theorem semL_endLoop (ctx : List Markup) (r : List RT) (hP : ∀ p ∈ r, SliceOK p) (N L : Nat) (h : L ≤ N) :
+    semL ctx (endLoop id (fun p m => getSlice p (some m) none) r (N : Int) (L : Int)).reverse
+      = (semL ctx r.reverse).drop (lenL r - (N - L)) := by
+  induction r generalizing L with
+  | nil => simp [endLoop, semL]
+  | cons p r ih =>
+    simp only [endLoop, id, List.reverse_cons, semL_reverse_cons, lenL]
+    split
+    · rename_i hc
+      have e : (len p : Int) - ((N : Int) - (L : Int)) = ((len p - (N - L) : Nat) : Int) := by omega
+      simp only [List.reverse_cons, List.reverse_nil, List.nil_append, semL, List.append_nil]
+      rw [hP p (by simp) ctx, e, strSlice_drop]
+      have hl : (semL ctx r.reverse).length = lenL r := by rw [semL_length, lenL_reverse]
+      have e2 : len p + lenL r - (N - L) = (semL ctx r.reverse).length + (len p - (N - L)) := by omega
+      have h3 : (semL ctx r.reverse).drop ((semL ctx r.reverse).length + (len p - (N - L))) = [] :=
+        List.drop_of_length_le (by omega)
+      rw [e2, List.drop_append, h3]
+      simp
+    · rename_i hc
+      have e : (L : Int) + (len p : Int) = ((L + len p : Nat) : Int) := by omega
+      rw [e]
+      simp only [List.reverse_cons, semL_reverse_cons]
+      rw [ih (fun q hq => hP q (by simp [hq])) (L + len p) (by omega)]
+      have hl : (semL ctx r.reverse).length = lenL r := by rw [semL_length, lenL_reverse]
+      have h3 : (semL ctx r.reverse ++ sem ctx p).drop (len p + lenL r - (N - L))
+          = (semL ctx r.reverse).drop (len p + lenL r - (N - L)) ++ sem ctx p :=
+        List.drop_append_of_le_length (by omega)
+      rw [h3]
+      congr 2; omega
+
+
+theorem strSlice_map {α β : Type} (f : α → β) (s : List α) (i j : Option Int) :
+    (strSlice s i j).map f = strSlice (s.map f) i j := by
+  simp [strSlice, List.map_take, List.map_drop]
+
+theorem strSlice_singleton {α : Type} (x : α) (i j : Option Int) :
+    strSlice [x] i j = if symSliceNonempty i j then [x] else [] := by
+  have h := strSlice_map (fun _ : α => ()) [x] i j
+  simp only [List.map_cons, List.map_nil] at h
+  simp only [symSliceNonempty, ← h]
+  generalize hs : strSlice [x] i j = r
+  have hsub : r.length ≤ 1 := by
+    rw [← hs]; simp only [strSlice, List.length_take, List.length_drop, List.length_singleton]; omega
+  match r, hsub with
+  | [], _ => simp
+  | [y], _ =>
+    have : y ∈ [x] := by
+      have : y ∈ strSlice [x] i j := by rw [hs]; simp
+      simp only [strSlice] at this
+      exact List.mem_of_mem_drop (List.mem_of_mem_take this)
+    simp at this; simp [this]
+
+theorem sliceOK_str (s : Str) : SliceOK (.str s) := by
+  intro ctx i j
+  simp only [getSlice_str, sem, strSlice_map]
+
+theorem sliceOK_sym (n : Str) : SliceOK (.sym n) := by
+  intro ctx i j
+  simp only [getSlice_sym, sem, strSlice_singleton]
+  split <;> simp [sem]
+
+theorem sliceIdx_le (n : Nat) (i : Option Int) (d : Nat) (hd : d ≤ n) : sliceIdx n i d ≤ n := by
+  unfold sliceIdx
+  split
+  · exact hd
+  · unfold pyNorm; split <;> omega
+
+theorem depthL_sliceEndParts_le (ps : List RT) (m : Int) : depthL (sliceEndParts ps m) ≤ depthL ps := by
+  rw [← sliceEndPartsB_val]; exact (sliceEndPartsB ps m).2
+
+theorem depthL_sliceBeginningParts_le (ps : List RT) (m : Int) : depthL (sliceBeginningParts ps m) ≤ depthL ps := by
+  rw [← sliceBegPartsB_val]; exact (sliceBegPartsB ps m).2
+
+/-- `_slice_end(m)` keeps the last `m` pairs -/
+theorem semL_sliceEndParts (ctx : List Markup) (ps : List RT) (hP : ∀ p ∈ ps, SliceOK p) (m : Nat) :
+    semL ctx (sliceEndParts ps (m : Int)) = (semL ctx ps).drop (lenL ps - m) := by
+  have := semL_endLoop ctx ps.reverse (fun p hp => hP p (List.mem_reverse.1 hp)) m 0 (Nat.zero_le _)
+  simp only [List.reverse_reverse, lenL_reverse, Nat.sub_zero] at this
+  simpa [sliceEndParts] using this
+
+/-- `_slice_beginning(m)` keeps the first `m` pairs -/
+theorem semL_sliceBeginningParts (ctx : List Markup) (ps : List RT) (hP : ∀ p ∈ ps, SliceOK p) (m : Nat) :
+    semL ctx (sliceBeginningParts ps (m : Int)) = (semL ctx ps).take m := by
+  have := semL_begLoop ctx ps hP m 0 (Nat.zero_le _)
+  simpa [sliceBeginningParts] using this
+
+theorem sliceOK_node (k : Kind) (ps : List RT) (d : Nat) (hd : depthL ps ≤ d)
+    (ih : ∀ t, depth t ≤ d → SliceOK t) : SliceOK (.node k ps) := by
+  intro ctx i j
+  have hps : ∀ p ∈ ps, SliceOK p := fun p hp => ih p (Nat.le_trans (depth_le_of_mem hp) hd)
+  rw [getSlice_node]
+  simp only [sliceBeginning]
+  generalize hn : lenL ps = n
+  generalize ha : sliceIdx n i 0 = a
+  generalize hb : sliceIdx n j n = b
+  have ha' : a ≤ n := by rw [← ha]; exact sliceIdx_le n i 0 (Nat.zero_le _)
+  have hb' : b ≤ n := by rw [← hb]; exact sliceIdx_le n j n (Nat.le_refl _)
+  have e1 : (n : Int) - (a : Int) = ((n - a : Nat) : Int) := by omega
+  have e2 : (((if b < a then a else b) : Nat) : Int) - (a : Int) = (((if b < a then a else b) - a : Nat) : Int) := by
+    split <;> omega
+  rw [e1, e2]
+  have hE : ∀ p ∈ mkParts (sliceEndParts ps ((n - a : Nat) : Int)), SliceOK p := by
+    intro p hp
+    apply ih
+    exact Nat.le_trans (depth_le_of_mem hp)
+      (Nat.le_trans (depthL_mkParts_le _) (Nat.le_trans (depthL_sliceEndParts_le _ _) hd))
+  rw [sem_mk]
+  simp only [sem]
+  rw [semL_sliceBeginningParts _ _ hE, semL_mkParts, semL_sliceEndParts _ _ hps, hn]
+  simp only [strSlice, semL_length, hn, ha, hb]
+  have e3 : n - (n - a) = a := by omega
+  rw [e3]
+  congr 1
+  split <;> omega
+
+theorem sliceOK_of_depth : ∀ d t, depth t ≤ d → SliceOK t := by
+  intro d
+  induction d with
+  | zero =>
+    intro t ht
+    cases t with
+    | str s => exact sliceOK_str s
+    | sym n => exact sliceOK_sym n
+    | node k ps => simp [depth] at ht
+  | succ d ih =>
+    intro t ht
+    cases t with
+    | str s => exact sliceOK_str s
+    | sym n => exact sliceOK_sym n
+    | node k ps =>
+      simp only [depth] at ht
+      exact sliceOK_node k ps d (by omega) ih
+
+/-- slicing acts on the string of pairs exactly as Python slicing acts on a string -/
+theorem sem_getSlice (ctx : List Markup) (t : RT) (i j : Option Int) :
+    sem ctx (getSlice t i j) = strSlice (sem ctx t) i j :=
+  sliceOK_of_depth (depth t) t (Nat.le_refl _) ctx i j
+
+
+/-! ### integer index -/
+
+theorem sem_getIndex_ok (ctx : List Markup) (t : RT) (i : Int)
+    (h : -(len t : Int) ≤ i ∧ i < (len t : Int)) :
+    ∃ r, getIndex t i = .ok r ∧
+      sem ctx r = ((sem ctx t).drop (if i < 0 then (len t : Int) + i else i).toNat).take 1 ∧
+      top r = top t := by
+  unfold getIndex
+  rw [if_pos h]
+  generalize hk : (if i < 0 then (len t : Int) + i else i) = k
+  have hk0 : 0 ≤ k ∧ k < (len t : Int) := by rw [← hk]; split <;> omega
+  obtain ⟨K, rfl⟩ := Int.eq_ofNat_of_zero_le hk0.1
+  simp only [Int.toNat_natCast]
+  cases t with
+  | str s => exact ⟨_, rfl, by simp [sem, List.map_take, List.map_drop], rfl⟩
+  | sym n =>
+    refine ⟨_, rfl, ?_, rfl⟩
+    simp only [len] at hk0
+    have : K = 0 := by omega
+    subst this; simp [sem]
+  | node k ps =>
+    refine ⟨_, rfl, ?_, by simp [sliceBeginning, mk, top]⟩
+    simp only [len] at hk0 ⊢
+    have e1 : (lenL ps : Int) - (K : Int) = ((lenL ps - K : Nat) : Int) := by omega
+    rw [e1]
+    simp only [sliceBeginning, sem_mk, sem]
+    have e2 : (1 : Int) = ((1 : Nat) : Int) := rfl
+    rw [e2, semL_sliceBeginningParts _ _ (fun p _ => sliceOK_of_depth _ p (Nat.le_refl _)), semL_mkParts,
+      semL_sliceEndParts _ _ (fun p _ => sliceOK_of_depth _ p (Nat.le_refl _))]
+    congr 2; omega
+
+theorem getIndex_error (t : RT) (i : Int) (h : ¬(-(len t : Int) ≤ i ∧ i < (len t : Int))) :
+    getIndex t i = .error .indexError := by
+  unfold getIndex; rw [if_neg h]
+
+/-! ### case mapping -/
+
+theorem mem_sem_stack (t : RT) (ctx : List Markup) : ∀ x ∈ sem ctx t, ∃ r, x.2 = ctx ++ r := by
+  intro x hx
+  rw [sem_ctx] at hx
+  simp only [Flat.push, List.mem_map] at hx
+  obtain ⟨y, _, rfl⟩ := hx
+  exact ⟨y.2, rfl⟩
+
+theorem isProt_append (a b : List Markup) : Flat.isProt (a ++ b) = (Flat.isProt a || Flat.isProt b) := by
+  simp [Flat.isProt]
+
+theorem mapCase_append (f : Char → Char) (a b : Flat) :
+    Flat.mapCase f (a ++ b) = Flat.mapCase f a ++ Flat.mapCase f b := by
+  simp [Flat.mapCase]
+
+theorem mapCase_prot (f : Char → Char) (s : Flat) (h : ∀ x ∈ s, Flat.isProt x.2 = true) :
+    Flat.mapCase f s = s := by
+  unfold Flat.mapCase
+  conv => rhs; rw [← List.map_id s]
+  apply List.map_congr_left
+  intro x hx
+  have := h x hx
+  cases hx1 : x.1 <;> simp [this]
+
+theorem sem_caseMap (f : Char → Char) (t : RT) :
+    ∀ ctx, Flat.isProt ctx = false → sem ctx (caseMap (List.map f) t) = Flat.mapCase f (sem ctx t) := by
+  induction t using RT.induct with
+  | hstr s =>
+    intro ctx hc
+    simp [caseMap, sem, Flat.mapCase, hc]
+  | hsym n => intro ctx hc; simp [caseMap, sem, Flat.mapCase]
+  | hnode k ps ih =>
+    intro ctx hc
+    have hL : ∀ c, Flat.isProt c = false → semL c (caseMapL (List.map f) ps) = Flat.mapCase f (semL c ps) := by
+      intro c hc'
+      induction ps with
+      | nil => simp [caseMapL, semL, Flat.mapCase]
+      | cons p ps ih2 =>
+        simp only [caseMapL, semL, mapCase_append]
+        rw [ih p (by simp) c hc', ih2 (fun q hq => ih q (by simp [hq]))]
+    cases k with
+    | prot =>
+      simp only [caseMap]
+      rw [mapCase_prot]
+      intro x hx
+      simp only [sem, Kind.markup] at hx
+      obtain ⟨r', hr'⟩ : ∃ r', x.2 = (ctx ++ [Markup.prot]) ++ r' := by
+        have := semL_ctx (ctx ++ [Markup.prot]) ps
+        rw [this] at hx
+        simp only [Flat.push, List.mem_map] at hx
+        obtain ⟨y, _, rfl⟩ := hx
+        exact ⟨y.2, rfl⟩
+      rw [hr']; simp [Flat.isProt]
+    | text =>
+      simp only [caseMap, sem_mk, sem, Kind.markup, List.append_nil]
+      exact hL ctx hc
+    | tag n =>
+      simp only [caseMap, sem_mk, sem, Kind.markup]
+      exact hL _ (by rw [isProt_append, hc]; rfl)
+    | href u e =>
+      simp only [caseMap, sem_mk, sem, Kind.markup]
+      exact hL _ (by rw [isProt_append, hc]; rfl)
+
+theorem lower_eq_map : Pybtex.lower = List.map lowerC := rfl
+theorem upper_eq_map : Pybtex.upper = List.map upperC := rfl
+
+theorem sem_lowerT (t : RT) : sem [] (lowerT t) = Flat.mapCase lowerC (sem [] t) := by
+  rw [lowerT, lower_eq_map]; exact sem_caseMap lowerC t [] rfl
+theorem sem_upperT (t : RT) : sem [] (upperT t) = Flat.mapCase upperC (sem [] t) := by
+  rw [upperT, upper_eq_map]; exact sem_caseMap upperC t [] rfl
+
+theorem top_caseMap (f : Str → Str) (t : RT) : top (caseMap f t) = top t := by
+  cases t with
+  | str s => rfl
+  | sym n => rfl
+  | node k ps => cases k <;> simp [caseMap, mk, top]
+
+
+/-! ### normal forms -/
+
+/-- a part as the constructors leave it: non-empty, not a `Text`, itself normal -/
+def PartOK (p : RT) : Prop := len p ≠ 0 ∧ isText p = false ∧ Normal p = true
+
+theorem normalL_iff (l : List RT) : NormalL l = true ↔ ∀ p ∈ l, PartOK p := by
+  induction l with
+  | nil => simp [NormalL]
+  | cons p l ih =>
+    simp only [NormalL, Bool.and_eq_true, ih, List.mem_cons, forall_eq_or_imp, PartOK]
+    simp [and_assoc]
+
+theorem normal_node (k : Kind) (ps : List RT) :
+    Normal (.node k ps) = true ↔ (∀ p ∈ ps, PartOK p) ∧ noAdjacentSimilar ps = true := by
+  simp [Normal, normalL_iff]
+
+theorem unpack_of_not_text (p : RT) (h : isText p = false) : unpack p = [p] := by
+  unfold unpack; split
+  · simp [isText] at h
+  · rfl
+
+theorem prep_of_partOK (l : List RT) (h : ∀ p ∈ l, PartOK p) : prep l = l := by
+  unfold prep
+  induction l with
+  | nil => rfl
+  | cons p l ih =>
+    have hp := h p (by simp)
+    have : (len p != 0) = true := by simpa using hp.1
+    simp only [List.filter, this, List.flatMap_cons, unpack_of_not_text p hp.2.1]
+    rw [ih (fun q hq => h q (by simp [hq]))]; rfl
+
+theorem partOK_prep (ps : List RT) (h : ∀ p ∈ ps, Normal p = true) : ∀ q ∈ prep ps, PartOK q := by
+  intro q hq
+  simp only [prep, List.mem_flatMap, List.mem_filter] at hq
+  obtain ⟨p, ⟨hp, hne⟩, hqp⟩ := hq
+  have hn := h p hp
+  unfold unpack at hqp
+  split at hqp
+  · rw [normal_node] at hn
+    exact hn.1 q hqp
+  · rename_i hnt
+    simp only [List.mem_singleton] at hqp
+    subst hqp
+    refine ⟨by simpa using hne, ?_, hn⟩
+    cases q with
+    | str s => rfl
+    | sym n => rfl
+    | node k ps => cases k <;> simp_all [isText]
+
+theorem head_mergeSimilar (l : List RT) :
+    (mergeSimilar l).head?.map typeInfo = l.head?.map typeInfo := by
+  fun_induction mergeSimilar l <;> simp_all [typeInfo]
+
+theorem noAdj_cons_of_head (x : RT) (M : List RT) (hM : noAdjacentSimilar M = true)
+    (h : ∀ y, M.head? = some y → mergeable x y = false) : noAdjacentSimilar (x :: M) = true := by
+  cases M with
+  | nil => rfl
+  | cons y M => simp [noAdjacentSimilar, h y rfl, hM]
+
+theorem head_dropWhile_not {α : Type} (f : α → Bool) (l : List α) (y : α)
+    (h : (l.dropWhile f).head? = some y) : f y = false := by
+  induction l with
+  | nil => simp at h
+  | cons a l ih =>
+    simp only [List.dropWhile] at h
+    split at h
+    · exact ih h
+    · rename_i hfa
+      simp only [List.head?_cons, Option.some.injEq] at h; subst h; exact hfa
+
+/-- the element following a group is not mergeable with anything of the group's type info -/
+theorem next_not_mergeable (p x : RT) (rest : List RT) (hx : typeInfo x = typeInfo p) :
+    ∀ y, (mergeSimilar (rest.dropWhile (similar p))).head? = some y → mergeable x y = false := by
+  intro y hy
+  have h1 := head_mergeSimilar (rest.dropWhile (similar p))
+  rw [hy] at h1
+  simp only [Option.map_some] at h1
+  cases hd : (rest.dropWhile (similar p)).head? with
+  | none => rw [hd] at h1; simp at h1
+  | some z =>
+    rw [hd] at h1
+    simp only [Option.map_some, Option.some.injEq] at h1
+    have := head_dropWhile_not _ _ z hd
+    simp only [similar, beq_eq_false_iff_ne, ne_eq] at this
+    simp only [mergeable, hx, h1, Bool.and_eq_false_imp, beq_iff_eq]
+    intro h2; exact absurd h2.symm this
+
+theorem noAdj_symbols (p : RT) (l M : List RT) (hp : typeInfo p = .none) (hl : ∀ q ∈ l, typeInfo q = .none)
+    (hM : noAdjacentSimilar M = true) : noAdjacentSimilar (p :: l ++ M) = true := by
+  induction l generalizing p with
+  | nil =>
+    apply noAdj_cons_of_head _ _ hM
+    intro y _; simp [mergeable, hp]
+  | cons q l ih =>
+    simp only [List.cons_append, noAdjacentSimilar, mergeable, hp, bne_self_eq_false, Bool.and_false,
+      Bool.not_false, Bool.true_and]
+    exact ih q (hl q (by simp)) (fun r hr => hl r (by simp [hr]))
+
+theorem noAdj_mergeSimilar (l : List RT) : noAdjacentSimilar (mergeSimilar l) = true := by
+  fun_induction mergeSimilar l with
+  | case1 => rfl
+  | case2 p rest hti ih =>
+    apply noAdj_symbols p _ _ hti _ ih
+    intro q hq
+    have := mem_takeWhile_true _ _ q hq
+    simp only [similar, beq_iff_eq] at this
+    rw [this, hti]
+  | case3 p rest _ _ ih => exact noAdj_cons_of_head _ _ ih (next_not_mergeable p p rest rfl)
+  | case4 p rest hti _ ih =>
+    exact noAdj_cons_of_head _ _ ih (next_not_mergeable p _ rest (by rw [hti]; rfl))
+  | case5 p rest k _ _ ih => exact noAdj_cons_of_head _ _ ih (next_not_mergeable p p rest rfl)
+  | case6 p rest k hti _ _ ih =>
+    exact noAdj_cons_of_head _ _ ih (next_not_mergeable p _ rest (by rw [hti]; rfl))
+
+
+theorem lenL_group (k : Kind) (l : List RT) (h : ∀ q ∈ l, typeInfo q = .multi k) :
+    lenL (l.flatMap children) = lenL l := by
+  rw [← semL_length ([] ++ k.markup), semL_children [] k l h, semL_length]
+
+theorem len_strings (l : List RT) (h : ∀ q ∈ l, typeInfo q = .string) :
+    (l.flatMap strValue).length = lenL l := by
+  have := semL_strings [] l h
+  rw [← semL_length [], ← this]; simp [sem]
+
+theorem partOK_mergeSimilar (l : List RT) : (∀ p ∈ l, PartOK p) → ∀ q ∈ mergeSimilar l, PartOK q := by
+  fun_induction mergeSimilar l with
+  | case1 => intro _ q hq; cases hq
+  | case2 p rest hti ih =>
+    intro h q hq
+    simp only [List.cons_append, List.mem_cons, List.mem_append] at hq
+    rcases hq with hq | hq | hq
+    · subst hq; exact h _ (by simp)
+    · exact h q (by simp [(List.takeWhile_sublist _).subset hq])
+    · exact ih (fun r hr => h r (by simp [(List.dropWhile_sublist _).subset hr])) q hq
+  | case3 p rest _ _ ih =>
+    intro h q hq
+    rcases List.mem_cons.1 hq with hq | hq
+    · subst hq; exact h _ (by simp)
+    · exact ih (fun r hr => h r (by simp [(List.dropWhile_sublist _).subset hr])) q hq
+  | case4 p rest hti _ ih =>
+    intro h q hq
+    rcases List.mem_cons.1 hq with hq | hq
+    · subst hq
+      refine ⟨?_, rfl, rfl⟩
+      simp only [len]
+      rw [len_strings _ (group_typeInfo p rest _ hti)]
+      have := (h p (by simp)).1
+      simp only [lenL]; omega
+    · exact ih (fun r hr => h r (by simp [(List.dropWhile_sublist _).subset hr])) q hq
+  | case5 p rest k _ _ ih =>
+    intro h q hq
+    rcases List.mem_cons.1 hq with hq | hq
+    · subst hq; exact h _ (by simp)
+    · exact ih (fun r hr => h r (by simp [(List.dropWhile_sublist _).subset hr])) q hq
+  | case6 p rest k hti _ ih2 ih1 =>
+    intro h q hq
+    rcases List.mem_cons.1 hq with hq | hq
+    · subst hq
+      have hg := group_typeInfo p rest _ hti
+      have hgOK : ∀ r ∈ p :: rest.takeWhile (similar p), PartOK r := by
+        intro r hr
+        rcases List.mem_cons.1 hr with hr | hr
+        · subst hr; exact h _ (by simp)
+        · exact h r (by simp [(List.takeWhile_sublist _).subset hr])
+      have hX : ∀ r ∈ (p :: rest.takeWhile (similar p)).flatMap children, PartOK r := by
+        intro r hr
+        simp only [List.mem_flatMap] at hr
+        obtain ⟨g, hg1, hr⟩ := hr
+        have hgn := (hgOK g hg1).2.2
+        cases g with
+        | str s => simp [children] at hr
+        | sym n => simp [children] at hr
+        | node k' ps => rw [normal_node] at hgn; exact hgn.1 r hr
+      have hprep := prep_of_partOK _ hX
+      refine ⟨?_, ?_, ?_⟩
+      · simp only [len]
+        have hl := lenL_mkParts ((p :: rest.takeWhile (similar p)).flatMap children)
+        simp only [mkParts] at hl
+        rw [hl, lenL_group k _ hg]
+        have := (h p (by simp)).1
+        simp only [lenL]; omega
+      · have := (h p (by simp)).2.1
+        cases p with
+        | str s => simp [typeInfo] at hti
+        | sym n => simp [typeInfo] at hti
+        | node k' ps =>
+          simp only [typeInfo, TypeInfo.multi.injEq] at hti; subst hti
+          cases k' <;> simp_all [isText]
+      · rw [normal_node]
+        exact ⟨ih2 (by rw [hprep]; exact hX), noAdj_mergeSimilar _⟩
+    · exact ih1 (fun r hr => h r (by simp [(List.dropWhile_sublist _).subset hr])) q hq
+
+theorem partOK_mkParts (ps : List RT) (h : ∀ p ∈ ps, Normal p = true) : ∀ q ∈ mkParts ps, PartOK q :=
+  partOK_mergeSimilar _ (partOK_prep ps h)
+
+/-- the constructor produces normal forms -/
+theorem normal_mk (k : Kind) (ps : List RT) (h : ∀ p ∈ ps, Normal p = true) : Normal (mk k ps) = true := by
+  rw [mk, normal_node]
+  exact ⟨partOK_mkParts ps h, noAdj_mergeSimilar _⟩
+
+theorem normal_build (t : RT) : Normal (build t) = true := by
+  induction t using RT.induct with
+  | hstr s => rfl
+  | hsym n => rfl
+  | hnode k ps ih =>
+    simp only [build]
+    apply normal_mk
+    intro p hp
+    have : ∀ l : List RT, (∀ q ∈ l, Normal (build q) = true) → ∀ p ∈ buildL l, Normal p = true := by
+      intro l
+      induction l with
+      | nil => intro _ p hp; cases hp
+      | cons q l ih2 =>
+        intro hl p hp
+        simp only [buildL, List.mem_cons] at hp
+        rcases hp with hp | hp
+        · subst hp; exact hl q (by simp)
+        · exact ih2 (fun r hr => hl r (by simp [hr])) p hp
+    exact this ps ih p hp
+
+theorem normal_of_partOK {p : RT} (h : PartOK p) : Normal p = true := h.2.2
+
+theorem normal_parts {k : Kind} {ps : List RT} (h : Normal (.node k ps) = true) :
+    ∀ p ∈ ps, Normal p = true := fun p hp => ((normal_node k ps).1 h).1 p hp |>.2.2
+
+theorem normal_add (a b : RT) (ha : Normal a = true) (hb : Normal b = true) : Normal (add a b) = true := by
+  apply normal_mk; intro p hp; simp at hp; rcases hp with rfl | rfl <;> assumption
+
+theorem normal_append (t x : RT) (ht : Normal t = true) (hx : Normal x = true) : Normal (append t x) = true := by
+  cases t with
+  | str s => exact normal_add _ _ ht hx
+  | sym n => exact normal_add _ _ ht hx
+  | node k ps =>
+    apply normal_mk; intro p hp
+    simp only [List.mem_append, List.mem_singleton] at hp
+    rcases hp with hp | rfl
+    · exact normal_parts ht p hp
+    · exact hx
+
+theorem mem_joinedList (sep : RT) (l : List RT) : ∀ p ∈ joinedList sep l, p = sep ∨ p ∈ l := by
+  induction l with
+  | nil => intro p hp; cases hp
+  | cons a l ih =>
+    cases l with
+    | nil => intro p hp; simp [joinedList] at hp; simp [hp]
+    | cons b r =>
+      intro p hp
+      simp only [joinedList, List.mem_cons] at hp ih ⊢
+      rcases hp with rfl | rfl | hp
+      · simp
+      · simp
+      · rcases ih p hp with h | h | h <;> simp [h]
+
+theorem normal_join (sep : RT) (l : List RT) (hs : Normal sep = true) (hl : ∀ p ∈ l, Normal p = true) :
+    Normal (join sep l) = true := by
+  apply normal_mk; intro p hp
+  rcases mem_joinedList sep l p hp with rfl | h
+  · exact hs
+  · exact hl p h
+
+
+/-! ### the operations preserve normal forms -/
+
+def SliceNormal (t : RT) : Prop := Normal t = true → ∀ i j, Normal (getSlice t i j) = true
+
+theorem normal_sliceBeginningParts (ps : List RT) (hn : ∀ p ∈ ps, Normal p = true)
+    (hs : ∀ p ∈ ps, SliceNormal p) (m : Int) : ∀ q ∈ sliceBeginningParts ps m, Normal q = true := by
+  intro q hq
+  obtain ⟨a, ha, h | ⟨m', h⟩⟩ := mem_begLoop hq
+  · rw [h]; exact hn a ha
+  · rw [h]; exact hs a ha (hn a ha) _ _
+
+theorem normal_sliceEndParts (ps : List RT) (hn : ∀ p ∈ ps, Normal p = true)
+    (hs : ∀ p ∈ ps, SliceNormal p) (m : Int) : ∀ q ∈ sliceEndParts ps m, Normal q = true := by
+  intro q hq
+  simp only [sliceEndParts, List.mem_reverse] at hq
+  obtain ⟨a, ha, h | ⟨m', h⟩⟩ := mem_endLoop hq
+  · rw [h]; exact hn a (List.mem_reverse.1 ha)
+  · rw [h]; exact hs a (List.mem_reverse.1 ha) (hn a (List.mem_reverse.1 ha)) _ _
+
+theorem normal_slice_chain (k : Kind) (ps : List RT) (d : Nat) (hd : depthL ps ≤ d)
+    (ih : ∀ t, depth t ≤ d → SliceNormal t) (hn : ∀ p ∈ ps, Normal p = true) (m1 m2 : Int) :
+    Normal (sliceBeginning k (mkParts (sliceEndParts ps m1)) m2) = true := by
+  have hps : ∀ p ∈ ps, SliceNormal p := fun p hp => ih p (Nat.le_trans (depth_le_of_mem hp) hd)
+  have hE := normal_sliceEndParts ps hn hps m1
+  have hM := partOK_mkParts _ hE
+  apply normal_mk
+  apply normal_sliceBeginningParts _ (fun p hp => (hM p hp).2.2)
+  intro p hp
+  apply ih
+  exact Nat.le_trans (depth_le_of_mem hp)
+    (Nat.le_trans (depthL_mkParts_le _) (Nat.le_trans (depthL_sliceEndParts_le _ _) hd))
+
+theorem sliceNormal_of_depth : ∀ d t, depth t ≤ d → SliceNormal t := by
+  intro d
+  induction d with
+  | zero =>
+    intro t ht hn i j
+    cases t with
+    | str s => simp [getSlice_str, Normal]
+    | sym n => rw [getSlice_sym]; split <;> simp [Normal]
+    | node k ps => simp [depth] at ht
+  | succ d ih =>
+    intro t ht hn i j
+    cases t with
+    | str s => simp [getSlice_str, Normal]
+    | sym n => rw [getSlice_sym]; split <;> simp [Normal]
+    | node k ps =>
+      simp only [depth] at ht
+      rw [getSlice_node]
+      exact normal_slice_chain k ps d (by omega) ih (normal_parts hn) _ _
+
+theorem normal_getSlice (t : RT) (h : Normal t = true) (i j : Option Int) : Normal (getSlice t i j) = true :=
+  sliceNormal_of_depth (depth t) t (Nat.le_refl _) h i j
+
+theorem normal_getIndex (t : RT) (h : Normal t = true) (i : Int) (r : RT) (hr : getIndex t i = .ok r) :
+    Normal r = true := by
+  unfold getIndex at hr
+  split at hr
+  · cases t with
+    | str s => simp only [Except.ok.injEq] at hr; subst hr; rfl
+    | sym n => simp only [Except.ok.injEq] at hr; subst hr; rfl
+    | node k ps =>
+      simp only [Except.ok.injEq] at hr; subst hr
+      exact normal_slice_chain k ps (depthL ps) (Nat.le_refl _)
+        (fun t _ => sliceNormal_of_depth _ t (Nat.le_refl _)) (normal_parts h) _ _
+  · cases hr
+
+theorem normal_caseMap (f : Str → Str) (t : RT) : Normal t = true → Normal (caseMap f t) = true := by
+  induction t using RT.induct with
+  | hstr s => intro _; rfl
+  | hsym n => intro _; rfl
+  | hnode k ps ih =>
+    intro hn
+    have hL : ∀ q ∈ caseMapL f ps, Normal q = true := by
+      have hp := normal_parts hn
+      clear hn
+      induction ps with
+      | nil => intro q hq; cases hq
+      | cons p ps ih2 =>
+        intro q hq
+        simp only [caseMapL, List.mem_cons] at hq
+        rcases hq with rfl | hq
+        · exact ih p (by simp) (hp p (by simp))
+        · exact ih2 (fun r hr => ih r (by simp [hr])) (fun r hr => hp r (by simp [hr])) q hq
+    cases k with
+    | prot => simpa [caseMap] using hn
+    | text => simp only [caseMap]; exact normal_mk _ _ hL
+    | tag n => simp only [caseMap]; exact normal_mk _ _ hL
+    | href u e => simp only [caseMap]; exact normal_mk _ _ hL
+
+theorem normal_capfirst (t : RT) (h : Normal t = true) : Normal (capfirst t) = true := by
+  unfold capfirst
+  split
+  · exact h
+  · exact normal_add _ _ (normal_caseMap _ _ (normal_getSlice t h _ _)) (normal_getSlice t h _ _)
+
+theorem normal_capitalize (t : RT) (h : Normal t = true) : Normal (capitalize t) = true := by
+  unfold capitalize
+  split
+  · exact h
+  · exact normal_add _ _ (normal_caseMap _ _ (normal_getSlice t h _ _))
+      (normal_caseMap _ _ (normal_getSlice t h _ _))
+
+theorem normal_addPeriod (terms : List Str) (period t : RT) (h : Normal t = true) (hp : Normal period = true) :
+    Normal (addPeriod terms period t) = true := by
+  unfold addPeriod
+  split
+  · exact normal_append _ _ h hp
+  · exact h
+
+
+/-! ### `endswith` for one-character suffixes, `isalpha` -/
+
+theorem singleton_isSuffixOf (c : Char) (s : Str) : [c].isSuffixOf s = (s.getLast? == some c) := by
+  simp only [List.isSuffixOf, List.reverse_cons, List.reverse_nil, List.nil_append]
+  rw [← List.head?_reverse]
+  cases s.reverse with
+  | nil => simp [List.isPrefixOf]
+  | cons a r =>
+    simp only [List.isPrefixOf, List.head?_cons, Bool.and_true]
+    rw [Bool.eq_iff_iff, beq_iff_eq, beq_iff_eq]
+    constructor
+    · intro h; rw [h]
+    · intro h; exact (Option.some.inj h).symm
+
+theorem any_suffix_single (T : List Str) (hT : ∀ x ∈ T, x.length = 1) (s : Str) :
+    (T.any fun p => p.isSuffixOf s) = match s.getLast? with
+      | some c => T.contains [c]
+      | none => false := by
+  induction T with
+  | nil => cases s.getLast? <;> simp
+  | cons x T ih =>
+    have hx := hT x (by simp)
+    match x, hx with
+    | [c], _ =>
+      simp only [List.any_cons, singleton_isSuffixOf, ih (fun y hy => hT y (by simp [hy]))]
+      cases h : s.getLast? with
+      | none => simp
+      | some d =>
+        simp only [List.contains_cons]
+        by_cases hcd : d = c
+        · subst hcd; simp
+        · have : (some d == some c) = false := by simp [hcd]
+          have h2 : ([d] == [c]) = false := by simp [hcd]
+          simp [this, h2]
+
+theorem getLast?_append_of_ne_nil {α : Type} (a b : List α) (hb : b ≠ []) :
+    (a ++ b).getLast? = b.getLast? := by
+  rw [List.getLast?_append]; cases h : b.getLast? with
+  | none => simp [List.getLast?_eq_none_iff] at h; exact absurd h hb
+  | some x => simp
+
+theorem terminated_str (T : List Str) (ctx : List Markup) (s : Str) :
+    Flat.terminated T (sem ctx (.str s)) = match s.getLast? with
+      | some c => T.contains [c]
+      | none => false := by
+  simp only [Flat.terminated, sem, List.getLast?_map]
+  cases s.getLast? <;> simp
+
+theorem endsWith_terminated (T : List Str) (hT : ∀ x ∈ T, x.length = 1) (t : RT) :
+    ∀ ctx, Normal t = true → endsWith T t = Flat.terminated T (sem ctx t) := by
+  induction t using RT.induct with
+  | hstr s => intro ctx _; rw [terminated_str, endsWith, any_suffix_single T hT]
+  | hsym n => intro ctx _; simp [endsWith, sem, Flat.terminated]
+  | hnode k ps ih =>
+    intro ctx hn
+    have hp := ((normal_node k ps).1 hn).1
+    simp only [endsWith, sem]
+    generalize ctx ++ k.markup = c
+    clear hn
+    induction ps with
+    | nil => simp [endsWithL, semL, Flat.terminated]
+    | cons p ps ih2 =>
+      cases ps with
+      | nil =>
+        simp only [endsWithL, semL, List.append_nil]
+        exact ih p (by simp) c (hp p (by simp)).2.2
+      | cons q r =>
+        simp only [endsWithL]
+        rw [ih2 (fun x hx => ih x (by simp [hx])) (fun x hx => hp x (by simp [hx]))]
+        have hne : semL c (q :: r) ≠ [] := by
+          intro h
+          have := congrArg List.length h
+          rw [semL_length] at this
+          have := (hp q (by simp)).1
+          simp only [lenL, List.length_nil] at *; omega
+        conv => rhs; rw [semL]
+        simp only [Flat.terminated]
+        rw [getLast?_append_of_ne_nil _ _ hne]
+
+def Flat.allAlpha (s : Flat) : Bool :=
+  s.all fun x => match x.1 with
+    | .ch c => Pybtex.isAlpha c
+    | .sym _ => false
+
+theorem isAlphaT_eq (t : RT) : ∀ ctx, Normal t = true →
+    isAlphaT t = (len t != 0 && Flat.allAlpha (sem ctx t)) := by
+  induction t using RT.induct with
+  | hstr s =>
+    intro ctx _
+    simp only [isAlphaT, len, sem, Flat.allAlpha, List.all_map]
+    cases s <;> simp [Function.comp_def]
+  | hsym n => intro ctx _; simp [isAlphaT, sem, Flat.allAlpha]
+  | hnode k ps ih =>
+    intro ctx hn
+    have hp := ((normal_node k ps).1 hn).1
+    simp only [isAlphaT, len, sem]
+    congr 1
+    generalize ctx ++ k.markup = c
+    clear hn
+    induction ps with
+    | nil => simp [isAlphaL, semL, Flat.allAlpha]
+    | cons p ps ih2 =>
+      simp only [isAlphaL, semL]
+      rw [ih p (by simp) c (hp p (by simp)).2.2, ih2 (fun x hx => ih x (by simp [hx])) (fun x hx => hp x (by simp [hx]))]
+      have := (hp p (by simp)).1
+      simp only [Flat.allAlpha, List.all_append]
+      have h1 : (len p != 0) = true := by simpa using this
+      rw [h1, Bool.true_and]
+
+theorem isAlphaT_spec (t : RT) (ctx : List Markup) (h : Normal t = true) :
+    isAlphaT t = Flat.isAlpha (sem ctx t) := by
+  rw [isAlphaT_eq t ctx h, Flat.isAlpha]
+  congr 1
+  rw [← sem_length t ctx]
+  cases sem ctx t <;> simp
+
+
+/-! ### abstraction commutes with the operations -/
+
+@[simp] theorem top_mk (k : Kind) (ps : List RT) : top (mk k ps) = .multi k := rfl
+@[simp] theorem top_add (a b : RT) : top (add a b) = .multi .text := rfl
+@[simp] theorem top_node (k : Kind) (ps : List RT) : top (.node k ps) = .multi k := rfl
+@[simp] theorem top_str (s : Str) : top (.str s) = .string := rfl
+@[simp] theorem top_sym (n : Str) : top (.sym n) = .symbol := rfl
+@[simp] theorem abs_top (t : RT) : (abs t).top = top t := rfl
+@[simp] theorem abs_atoms (t : RT) : (abs t).atoms = sem [] t := rfl
+
+theorem abs_ext {t : RT} {a : Abs} (h1 : top t = a.top) (h2 : sem [] t = a.atoms) : abs t = a := by
+  cases a; simp only [abs] at *; simp [h1, h2]
+
+theorem abs_add (a b : RT) : abs (add a b) = Abs.add (abs a) (abs b) :=
+  abs_ext rfl (by simp [Abs.add, sem_add])
+
+theorem abs_append (t x : RT) : abs (append t x) = Abs.append (abs t) (abs x) := by
+  cases t with
+  | str s => exact abs_add _ _
+  | sym n => exact abs_add _ _
+  | node k ps =>
+    apply abs_ext
+    · simp [append, Abs.append]
+    · simp only [Abs.append, abs_top, top_node, abs_atoms, sem_append_node, List.nil_append]
+      rw [sem_ctx x k.markup]
+
+theorem abs_join (sep : RT) (xs : List RT) : abs (join sep xs) = Abs.join (abs sep) (xs.map abs) := by
+  apply abs_ext
+  · simp [join, Abs.join]
+  · simp only [Abs.join, sem_join, List.map_map, abs_atoms]
+    congr 1
+
+theorem top_getSlice_node (k : Kind) (ps : List RT) (i j : Option Int) :
+    top (getSlice (.node k ps) i j) = .multi k := by
+  rw [getSlice_node]; simp [sliceBeginning]
+
+theorem abs_getSlice (t : RT) (i j : Option Int) : abs (getSlice t i j) = Abs.slice (abs t) i j := by
+  apply abs_ext
+  · simp only [Abs.slice, abs_top, abs_atoms, Flat.slice]
+    cases t with
+    | str s => simp [getSlice_str]
+    | sym n =>
+      simp only [getSlice_sym, top_sym, sem, strSlice_singleton]
+      by_cases h : symSliceNonempty i j = true
+      · simp [h]
+      · simp [h]
+    | node k ps =>
+      have : (Top.multi k == Top.symbol) = false := by simp
+      simp [top_getSlice_node, this]
+  · simp only [Abs.slice, abs_atoms, Flat.slice, sem_getSlice]
+
+theorem abs_getIndex (t : RT) (i : Int) : (getIndex t i).map abs = Abs.index (abs t) i := by
+  by_cases h : -(len t : Int) ≤ i ∧ i < (len t : Int)
+  · obtain ⟨r, hr, hs, ht⟩ := sem_getIndex_ok [] t i h
+    have hlen : ((abs t).atoms.length : Int) = (len t : Int) := by simp [abs, sem_length]
+    simp only [Abs.index, hlen, if_pos h, hr, Except.map]
+    generalize hk : (if i < 0 then (len t : Int) + i else i) = k at hs
+    have hk0 : 0 ≤ k ∧ k < (len t : Int) := by rw [← hk]; split <;> omega
+    obtain ⟨K, rfl⟩ := Int.eq_ofNat_of_zero_le hk0.1
+    simp only [Int.toNat_natCast] at hs
+    have e : ((K : Int) + 1) = ((K + 1 : Nat) : Int) := by omega
+    have hsl : Flat.slice (sem [] t) (some (K : Int)) (some ((K : Int) + 1)) = ((sem [] t).drop K).take 1 := by
+      simp only [Flat.slice, strSlice, sliceIdx, e, pyNorm_nat, sem_length]
+      have : K < len t := by omega
+      rw [Nat.min_eq_left (by omega), Nat.min_eq_left (by omega)]
+      congr 1; omega
+    congr 1
+    apply abs_ext
+    · simp only [Abs.slice, abs_top, abs_atoms, hsl, ht]
+      have hlen2 : (((sem [] t).drop K).take 1).length = 1 := by
+        simp only [List.length_take, List.length_drop, sem_length]; omega
+      have hne : (((sem [] t).drop K).take 1).isEmpty = false := by
+        cases hd : ((sem [] t).drop K).take 1 with
+        | nil => rw [hd] at hlen2; simp at hlen2
+        | cons x xs => rfl
+      rw [hne]; simp
+    · simp only [Abs.slice, abs_atoms, hsl, hs]
+  · rw [getIndex_error t i h]
+    have hlen : ((abs t).atoms.length : Int) = (len t : Int) := by simp [abs, sem_length]
+    simp only [Abs.index, hlen]
+    rw [if_neg h]; rfl
+
+theorem abs_upperT (t : RT) : abs (upperT t) = Abs.caseMap upperC (abs t) :=
+  abs_ext (by simp [Abs.caseMap, upperT, top_caseMap]) (by simp [Abs.caseMap, sem_upperT])
+
+theorem abs_lowerT (t : RT) : abs (lowerT t) = Abs.caseMap lowerC (abs t) :=
+  abs_ext (by simp [Abs.caseMap, lowerT, top_caseMap]) (by simp [Abs.caseMap, sem_lowerT])
+
+theorem abs_capfirst (t : RT) : abs (capfirst t) = Abs.capfirst (abs t) := by
+  unfold capfirst Abs.capfirst
+  split
+  · simp
+  · rename_i hne
+    have : (abs t).top ≠ .multi .prot := by
+      intro h
+      cases t with
+      | str s => simp at h
+      | sym n => simp at h
+      | node k ps => simp only [abs_top, top_node, Top.multi.injEq] at h; subst h; exact hne _ rfl
+    rw [if_neg this, abs_add, abs_upperT, abs_getSlice, abs_getSlice]
+
+theorem abs_capitalize (t : RT) : abs (capitalize t) = Abs.capitalize (abs t) := by
+  unfold capitalize Abs.capitalize
+  split
+  · simp
+  · rename_i hne
+    have : (abs t).top ≠ .multi .prot := by
+      intro h
+      cases t with
+      | str s => simp at h
+      | sym n => simp at h
+      | node k ps => simp only [abs_top, top_node, Top.multi.injEq] at h; subst h; exact hne _ rfl
+    rw [if_neg this, abs_add, abs_upperT, abs_lowerT, abs_getSlice, abs_getSlice]
+
+theorem abs_addPeriod (terms : List Str) (hT : ∀ x ∈ terms, x.length = 1) (period t : RT)
+    (h : Normal t = true) :
+    abs (addPeriod terms period t) = Abs.addPeriod terms (abs period) (abs t) := by
+  have key : ∀ (c : Bool), abs (if c = true then append t period else t)
+      = if c = true then Abs.append (abs t) (abs period) else abs t := by
+    intro c; cases c <;> simp [abs_append]
+  have hl : (len t != 0) = !(sem [] t).isEmpty := by
+    rw [← sem_length t []]
+    cases sem [] t <;> simp
+  unfold addPeriod Abs.addPeriod
+  rw [endsWith_terminated terms hT t [] h, hl]
+  exact key _
+
+
+end RT
+
+/-! ### list splitting -/
+
+def mapHead {α : Type} (f : α → α) : List α → List α
+  | [] => []
+  | a :: r => f a :: r
+
+/-- `splitOnP p (a ++ b)` from the two halves: the last piece of the first is continued by the
+first piece of the second -/
+def glue {α : Type} : List (List α) → List (List α) → List (List α)
+  | [], B => B
+  | [a], B => mapHead (a ++ ·) B
+  | a :: a' :: A, B => a :: glue (a' :: A) B
+
+theorem splitOnP_ne_nil {α : Type} (p : α → Bool) (l : List α) : splitOnP p l ≠ [] := by
+  cases l with
+  | nil => simp [splitOnP]
+  | cons a l =>
+    simp only [splitOnP]
+    split
+    · simp
+    · split <;> simp
+
+theorem splitOnP_cons_false {α : Type} (p : α → Bool) (a : α) (l : List α) (h : p a = false) :
+    splitOnP p (a :: l) = mapHead (a :: ·) (splitOnP p l) := by
+  simp only [splitOnP, h, Bool.false_eq_true, if_false]
+  cases hs : splitOnP p l with
+  | nil => exact absurd hs (splitOnP_ne_nil p l)
+  | cons s ss => rfl
+
+theorem splitOnP_cons_true {α : Type} (p : α → Bool) (a : α) (l : List α) (h : p a = true) :
+    splitOnP p (a :: l) = [] :: splitOnP p l := by
+  simp [splitOnP, h]
+
+theorem mapHead_mapHead {α : Type} (f g : α → α) (l : List α) : mapHead f (mapHead g l) = mapHead (f ∘ g) l := by
+  cases l <;> rfl
+
+theorem glue_mapHead_left {α : Type} (f : List α → List α) (hf : ∀ a b, f a ++ b = f (a ++ b))
+    (A B : List (List α)) (hA : A ≠ []) (hB : B ≠ []) :
+    glue (mapHead f A) B = mapHead f (glue A B) := by
+  match A, hA with
+  | [a], _ =>
+    simp only [mapHead, glue]
+    cases B with
+    | nil => exact absurd rfl hB
+    | cons b B => simp [hf]
+  | a :: a' :: A, _ => simp [mapHead, glue]
+
+theorem splitOnP_append {α : Type} (p : α → Bool) (a b : List α) :
+    splitOnP p (a ++ b) = glue (splitOnP p a) (splitOnP p b) := by
+  induction a with
+  | nil =>
+    simp only [List.nil_append, splitOnP, glue]
+    cases splitOnP p b <;> simp [mapHead]
+  | cons x a ih =>
+    by_cases hx : p x = true
+    · rw [List.cons_append, splitOnP_cons_true p x _ hx, splitOnP_cons_true p x _ hx, ih]
+      cases h : splitOnP p a with
+      | nil => exact absurd h (splitOnP_ne_nil p a)
+      | cons s ss => simp [glue]
+    · have hx' : p x = false := by simpa using hx
+      rw [List.cons_append, splitOnP_cons_false p x _ hx', splitOnP_cons_false p x _ hx', ih]
+      rw [glue_mapHead_left (x :: ·) (fun _ _ => rfl) _ _ (splitOnP_ne_nil p a) (splitOnP_ne_nil p b)]
+
+theorem glue_snoc {α : Type} (I : List (List α)) (l : List α) (B : List (List α)) :
+    glue (I ++ [l]) B = I ++ mapHead (l ++ ·) B := by
+  induction I with
+  | nil => simp [glue]
+  | cons a I ih =>
+    cases I with
+    | nil => simp [glue]
+    | cons a' I => simp only [List.cons_append, glue] at ih ⊢; rw [ih]
+
+theorem splitOnP_none {α : Type} (p : α → Bool) (l : List α) (h : ∀ x ∈ l, p x = false) :
+    splitOnP p l = [l] := by
+  induction l with
+  | nil => rfl
+  | cons a l ih =>
+    rw [splitOnP_cons_false p a l (h a (by simp)), ih (fun x hx => h x (by simp [hx]))]; rfl
+
+theorem splitOnP_map {α β : Type} (f : α → β) (p : β → Bool) (l : List α) :
+    splitOnP p (l.map f) = (splitOnP (fun a => p (f a)) l).map (List.map f) := by
+  induction l with
+  | nil => rfl
+  | cons a l ih =>
+    by_cases h : p (f a) = true
+    · rw [List.map_cons, splitOnP_cons_true p _ _ h, splitOnP_cons_true _ a l h, ih]; rfl
+    · have h' : p (f a) = false := by simpa using h
+      rw [List.map_cons, splitOnP_cons_false p _ _ h', splitOnP_cons_false _ a l h', ih]
+      cases splitOnP (fun a => p (f a)) l <;> simp [mapHead]
+
+namespace RT
+
+
+theorem splitLit_single (c : Char) (s cur : Str) :
+    splitLit [c] s cur 0 = mapHead (cur.reverse ++ ·) (splitOnP (· == c) s) := by
+  induction s generalizing cur with
+  | nil => simp [splitLit, splitOnP, mapHead]
+  | cons x r ih =>
+    simp only [splitLit]
+    by_cases h : x = c
+    · subst h
+      have : [x].isPrefixOf (x :: r) = true := by simp [List.isPrefixOf]
+      rw [if_pos this, splitOnP_cons_true _ x r (by simp)]
+      simp only [List.length_singleton, Nat.sub_self, mapHead, List.append_nil]
+      rw [ih []]; simp only [List.reverse_nil, List.nil_append]
+      cases splitOnP (fun x_1 => x_1 == x) r <;> simp [mapHead]
+    · have h1 : [c].isPrefixOf (x :: r) = false := by
+        simp only [List.isPrefixOf, Bool.and_true, beq_eq_false_iff_ne, ne_eq]; exact fun e => h e.symm
+      have h2 : (x == c) = false := by simpa using h
+      rw [if_neg (by simp [h1]), ih, splitOnP_cons_false _ x r h2, mapHead_mapHead]
+      congr 1
+      funext y; simp
+
+
+/-! ### `split` at a one-character literal separator -/
+
+/-- what `keep_empty_parts` does to a list of pieces -/
+def keepF (keep : Bool) (S : List Flat) : List Flat := S.filter fun seg => !seg.isEmpty || keep
+
+theorem keepF_append (keep : Bool) (A B : List Flat) : keepF keep (A ++ B) = keepF keep A ++ keepF keep B := by
+  simp [keepF]
+
+theorem keepF_true (S : List Flat) : keepF true S = S := by simp [keepF]
+
+theorem keepF_single (ctx : List Markup) (keep : Bool) (x : RT) :
+    (if len x != 0 || keep then [x] else []).map (sem ctx) = keepF keep [sem ctx x] := by
+  have : (len x != 0) = !(sem ctx x).isEmpty := by
+    rw [← sem_length x ctx]; cases sem ctx x <;> simp
+  rw [this]
+  by_cases h : (!(sem ctx x).isEmpty || keep) = true
+  · simp [keepF, h]
+  · simp [keepF, h]
+
+theorem splitItems_sem (ctx : List Markup) (k : Kind) (keep : Bool) (items : List RT) :
+    ∀ tail, ((splitItems k keep items tail).1.map (sem ctx) = keepF keep (match items with
+        | [] => []
+        | i :: is => (semL (ctx ++ k.markup) tail ++ sem (ctx ++ k.markup) i) :: is.map (sem (ctx ++ k.markup))))
+      ∧ (splitItems k keep items tail).2 = (if items = [] then tail else []) := by
+  induction items with
+  | nil => intro tail; simp [splitItems, keepF]
+  | cons item items ih =>
+    intro tail
+    obtain ⟨ih1, ih2⟩ := ih []
+    have hr1 : (splitItems k keep items []).1.map (sem ctx) = keepF keep (items.map (sem (ctx ++ k.markup))) := by
+      rw [ih1]; cases items <;> simp [semL]
+    have hr2 : (splitItems k keep items []).2 = [] := by rw [ih2]; split <;> rfl
+    simp only [splitItems]
+    split
+    · refine ⟨?_, by simp [hr2]⟩
+      simp only [List.map_append, hr1]
+      rw [keepF_single, sem_mk]
+      simp only [sem, semL_append, semL, List.append_nil]
+      rw [← keepF_append]; rfl
+    · rename_i ht
+      have ht' : tail = [] := by simpa using ht
+      subst ht'
+      refine ⟨?_, by simp [hr2]⟩
+      simp only [List.map_append, hr1]
+      have h1 : (if len item != 0 || keep then [mk k [item]] else []).map (sem ctx)
+          = keepF keep [sem (ctx ++ k.markup) item] := by
+        have : (len item != 0) = !(sem (ctx ++ k.markup) item).isEmpty := by
+          rw [← sem_length item (ctx ++ k.markup)]; cases sem (ctx ++ k.markup) item <;> simp
+        rw [this]
+        by_cases h : (!(sem (ctx ++ k.markup) item).isEmpty || keep) = true
+        · simp [keepF, h, sem_mk, sem, semL]
+        · simp [keepF, h]
+      rw [h1, ← keepF_append]
+      simp [semL]
+
+def SplitOK (c0 : Char) (t : RT) : Prop :=
+  ∀ ctx, Flat.isProt ctx = false →
+    (split (.lit c0 []) t (some true)).map (sem ctx) = splitOnP (Flat.isSep (.lit c0 [])) (sem ctx t)
+
+theorem mapHead_nil_append (S : List Flat) : mapHead (fun x => ([] : Flat) ++ x) S = S := by
+  cases S <;> simp [mapHead]
+
+theorem splitL_sem (c0 : Char) (ctx : List Markup) (k : Kind) (hc : Flat.isProt (ctx ++ k.markup) = false)
+    (keep : Bool) (ps : List RT) (hps : ∀ p ∈ ps, SplitOK c0 p) :
+    ∀ tail, (keep = true → tail ≠ []) →
+      (splitL (.lit c0 []) k keep ps tail).map (sem ctx)
+        = keepF keep (mapHead (semL (ctx ++ k.markup) tail ++ ·)
+            (splitOnP (Flat.isSep (.lit c0 [])) (semL (ctx ++ k.markup) ps))) := by
+  induction ps with
+  | nil =>
+    intro tail hk
+    simp only [splitL, semL, splitOnP, mapHead, List.append_nil]
+    by_cases ht : tail = []
+    · subst ht
+      have : keep = false := by cases keep <;> simp_all
+      subst this
+      simp [keepF, semL]
+    · have : (!tail.isEmpty) = true := by simpa using ht
+      rw [if_pos this, keepF_single, sem_mk]; rfl
+  | cons part ps ih =>
+    intro tail hk
+    have hsp := hps part (by simp) (ctx ++ k.markup) hc
+    simp only [splitL]
+    generalize hS : split (Sep.lit c0 []) part (some true) = sp at hsp
+    have hne : sp ≠ [] := by
+      intro h; rw [h] at hsp
+      exact splitOnP_ne_nil _ _ hsp.symm
+    cases hrev : sp.reverse with
+    | nil => simp at hrev; exact absurd hrev hne
+    | cons last revInit =>
+      have hsp' : sp = revInit.reverse ++ [last] := by
+        have := congrArg List.reverse hrev; simpa using this
+      simp only
+      obtain ⟨h1, h2⟩ := splitItems_sem ctx k keep revInit.reverse tail
+      rw [List.map_append, h1, h2]
+      rw [ih (fun p hp => hps p (by simp [hp])) _ (by intro _; simp)]
+      rw [semL, splitOnP_append, ← hsp, hsp', List.map_append, List.map_cons, List.map_nil, glue_snoc]
+      cases hI : revInit.reverse with
+      | nil =>
+        simp only [List.map_nil, List.nil_append, if_pos, keepF, List.filter_nil, mapHead_mapHead, semL_append,
+          semL, List.append_nil]
+        congr 2
+        funext x; simp [List.append_assoc]
+      | cons i is =>
+        simp only [List.map_cons, if_neg (List.cons_ne_nil _ _), List.nil_append, semL, List.append_nil,
+          List.cons_append, mapHead]
+        rw [← keepF_append]; rfl
+
+
+theorem isSep_ch (c0 a : Char) (ctx : List Markup) (hc : Flat.isProt ctx = false) :
+    Flat.isSep (.lit c0 []) (Atom.ch a, ctx) = (a == c0) := by
+  simp [Flat.isSep, hc]
+
+theorem sem_strSplit (c0 : Char) (ctx : List Markup) (hc : Flat.isProt ctx = false) (s : Str) :
+    (strSplit (.lit c0 []) s).map (fun part => sem ctx (.str part))
+      = splitOnP (Flat.isSep (.lit c0 [])) (sem ctx (.str s)) := by
+  simp only [strSplit, splitLit_single, List.reverse_nil, sem]
+  rw [splitOnP_map]
+  have : (fun a => Flat.isSep (Sep.lit c0 []) (Atom.ch a, ctx)) = (· == c0) := by
+    funext a; exact isSep_ch c0 a ctx hc
+  rw [this]
+  cases splitOnP (· == c0) s <;> simp [mapHead]
+
+theorem stack_prot (ctx : List Markup) (ps : List RT) :
+    ∀ x ∈ semL (ctx ++ [Markup.prot]) ps, Flat.isProt x.2 = true := by
+  intro x hx
+  rw [semL_ctx] at hx
+  simp only [Flat.push, List.mem_map] at hx
+  obtain ⟨y, _, rfl⟩ := hx
+  simp [Flat.isProt]
+
+theorem splitOK_all (c0 : Char) (t : RT) : SplitOK c0 t := by
+  induction t using RT.induct with
+  | hstr s =>
+    intro ctx hc
+    simp only [split, keepDefault, Bool.or_true, List.map_map]
+    rw [List.filter_eq_self.2 (fun _ _ => rfl)]
+    exact sem_strSplit c0 ctx hc s
+  | hsym n =>
+    intro ctx hc
+    simp only [split, List.map_cons, List.map_nil, sem]
+    rw [splitOnP_none]
+    intro x hx; simp at hx; subst hx; simp [Flat.isSep]
+  | hnode k ps ih =>
+    intro ctx hc
+    cases k with
+    | prot =>
+      simp only [split, List.map_cons, List.map_nil]
+      rw [splitOnP_none]
+      intro x hx
+      simp only [sem, Kind.markup] at hx
+      simp [Flat.isSep, stack_prot ctx ps x hx]
+    | text =>
+      simp only [split, keepDefault, if_true]
+      rw [splitL_sem c0 ctx .text (by simpa [Kind.markup] using hc) true ps ih _ (by simp)]
+      simp only [keepF_true, semL, sem, List.map_nil, List.append_nil]
+      exact mapHead_nil_append _
+    | tag n =>
+      simp only [split, keepDefault, if_true]
+      rw [splitL_sem c0 ctx (.tag n) (by rw [isProt_append, hc]; rfl) true ps ih _ (by simp)]
+      simp only [keepF_true, semL, sem, List.map_nil, List.append_nil]
+      exact mapHead_nil_append _
+    | href u e =>
+      simp only [split, keepDefault, if_true]
+      rw [splitL_sem c0 ctx (.href u e) (by rw [isProt_append, hc]; rfl) true ps ih _ (by simp)]
+      simp only [keepF_true, semL, sem, List.map_nil, List.append_nil]
+      exact mapHead_nil_append _
+
+/-- `split` at a one-character separator is the list split at the unprotected occurrences -/
+theorem sem_split_lit (c0 : Char) (t : RT) (keep : Option Bool) (ctx : List Markup)
+    (hc : Flat.isProt ctx = false) (ht : top t ≠ .symbol ∧ top t ≠ .multi .prot) :
+    (split (.lit c0 []) t keep).map (sem ctx)
+      = keepF (keepDefault (.lit c0 []) keep) (splitOnP (Flat.isSep (.lit c0 [])) (sem ctx t)) := by
+  cases t with
+  | str s =>
+    simp only [split, List.map_map]
+    rw [← sem_strSplit c0 ctx hc s]
+    simp only [keepF, List.filter_map]
+    congr 1
+    apply List.filter_congr
+    intro part _
+    simp [sem]
+  | sym n => simp at ht
+  | node k ps =>
+    have hps : ∀ p ∈ ps, SplitOK c0 p := fun p _ => splitOK_all c0 p
+    have hk : k ≠ .prot := by intro h; subst h; simp at ht
+    have hc' : Flat.isProt (ctx ++ k.markup) = false := by
+      rw [isProt_append, hc]; cases k <;> simp_all [Kind.markup, Flat.isProt]
+    have key : ∀ tail, (keepDefault (.lit c0 []) keep = true → tail ≠ []) → semL (ctx ++ k.markup) tail = [] →
+        (splitL (.lit c0 []) k (keepDefault (.lit c0 []) keep) ps tail).map (sem ctx)
+          = keepF (keepDefault (.lit c0 []) keep) (splitOnP (Flat.isSep (.lit c0 [])) (sem ctx (.node k ps))) := by
+      intro tail h1 h2
+      rw [splitL_sem c0 ctx k hc' _ ps hps tail h1, h2]
+      simp only [sem]
+      rw [mapHead_nil_append]
+    cases k with
+    | prot => exact absurd rfl hk
+    | text => simp only [split]; apply key <;> split <;> simp_all [semL, sem]
+    | tag n => simp only [split]; apply key <;> split <;> simp_all [semL, sem]
+    | href u e => simp only [split]; apply key <;> split <;> simp_all [semL, sem]
+
+
+/-! the pieces are objects of the same class, in normal form -/
+
+theorem splitItems_props (k : Kind) (keep : Bool) (items : List RT) :
+    ∀ tail, (∀ x ∈ items, Normal x = true) → (∀ x ∈ tail, Normal x = true) →
+      (∀ r ∈ (splitItems k keep items tail).1, top r = .multi k ∧ Normal r = true) ∧
+      (∀ x ∈ (splitItems k keep items tail).2, Normal x = true) := by
+  induction items with
+  | nil => intro tail _ ht; simp [splitItems]; exact ht
+  | cons item items ih =>
+    intro tail hi ht
+    obtain ⟨ih1, ih2⟩ := ih [] (fun x hx => hi x (by simp [hx])) (by simp)
+    simp only [splitItems]
+    split
+    · refine ⟨?_, ih2⟩
+      intro r hr
+      simp only [List.mem_append] at hr
+      rcases hr with hr | hr
+      · split at hr
+        · simp only [List.mem_singleton] at hr; subst hr
+          refine ⟨rfl, normal_mk _ _ ?_⟩
+          intro p hp
+          simp only [List.mem_append, List.mem_singleton] at hp
+          rcases hp with hp | rfl
+          · exact ht p hp
+          · exact hi _ (by simp)
+        · cases hr
+      · exact ih1 r hr
+    · refine ⟨?_, ih2⟩
+      intro r hr
+      simp only [List.mem_append] at hr
+      rcases hr with hr | hr
+      · split at hr
+        · simp only [List.mem_singleton] at hr; subst hr
+          refine ⟨rfl, normal_mk _ _ ?_⟩
+          intro p hp
+          simp only [List.mem_singleton] at hp; subst hp
+          exact hi _ (by simp)
+        · cases hr
+      · exact ih1 r hr
+
+def SplitNormal (t : RT) : Prop :=
+  Normal t = true → ∀ sep keep, ∀ r ∈ split sep t keep, Normal r = true
+
+theorem splitL_props (sep : Sep) (k : Kind) (keep : Bool) (ps : List RT)
+    (hps : ∀ p ∈ ps, SplitNormal p ∧ Normal p = true) :
+    ∀ tail, (∀ x ∈ tail, Normal x = true) →
+      ∀ r ∈ splitL sep k keep ps tail, top r = .multi k ∧ Normal r = true := by
+  induction ps with
+  | nil =>
+    intro tail ht r hr
+    simp only [splitL] at hr
+    split at hr
+    · split at hr
+      · simp only [List.mem_singleton] at hr; subst hr
+        exact ⟨rfl, normal_mk _ _ ht⟩
+      · cases hr
+    · cases hr
+  | cons part ps ih =>
+    intro tail ht r hr
+    simp only [splitL] at hr
+    have hpart := hps part (by simp)
+    have hsp : ∀ x ∈ split sep part (some true), Normal x = true := hpart.1 hpart.2 sep (some true)
+    split at hr
+    · exact ih (fun p hp => hps p (by simp [hp])) tail ht r hr
+    · rename_i last revInit hrev
+      have hmem : ∀ x, x ∈ last :: revInit → x ∈ split sep part (some true) := by
+        intro x hx; rw [← hrev] at hx; exact List.mem_reverse.1 hx
+      obtain ⟨h1, h2⟩ := splitItems_props k keep revInit.reverse tail
+        (fun x hx => hsp x (hmem x (by simp [List.mem_reverse.1 hx]))) ht
+      simp only [List.mem_append] at hr
+      rcases hr with hr | hr
+      · exact h1 r hr
+      · apply ih (fun p hp => hps p (by simp [hp])) _ _ r hr
+        intro x hx
+        simp only [List.mem_append, List.mem_singleton] at hx
+        rcases hx with hx | rfl
+        · exact h2 x hx
+        · exact hsp _ (hmem _ (by simp))
+
+theorem splitNormal_all (t : RT) : SplitNormal t := by
+  induction t using RT.induct with
+  | hstr s => intro _ sep keep r hr; simp only [split, List.mem_map] at hr; obtain ⟨_, _, rfl⟩ := hr; rfl
+  | hsym n => intro _ sep keep r hr; simp only [split, List.mem_singleton] at hr; subst hr; rfl
+  | hnode k ps ih =>
+    intro hn sep keep r hr
+    have hps : ∀ p ∈ ps, SplitNormal p ∧ Normal p = true := fun p hp => ⟨ih p hp, normal_parts hn p hp⟩
+    have key : ∀ tail, (∀ x ∈ tail, Normal x = true) → r ∈ splitL sep k (keepDefault sep keep) ps tail →
+        Normal r = true := fun tail ht hr => (splitL_props sep k _ ps hps tail ht r hr).2
+    cases k with
+    | prot => simp only [split, List.mem_singleton] at hr; subst hr; exact hn
+    | text => simp only [split] at hr; exact key _ (by split <;> simp [Normal]) hr
+    | tag n => simp only [split] at hr; exact key _ (by split <;> simp [Normal]) hr
+    | href u e => simp only [split] at hr; exact key _ (by split <;> simp [Normal]) hr
+
+theorem normal_split (t : RT) (h : Normal t = true) (sep : Sep) (keep : Option Bool) :
+    ∀ r ∈ split sep t keep, Normal r = true := splitNormal_all t h sep keep
+
+theorem top_split (t : RT) (sep : Sep) (keep : Option Bool) : ∀ r ∈ split sep t keep, top r = top t := by
+  intro r hr
+  cases t with
+  | str s => simp only [split, List.mem_map] at hr; obtain ⟨_, _, rfl⟩ := hr; rfl
+  | sym n => simp only [split, List.mem_singleton] at hr; subst hr; rfl
+  | node k ps =>
+    have key : ∀ tail, r ∈ splitL sep k (keepDefault sep keep) ps tail → top r = .multi k := by
+      intro tail
+      have : ∀ (ps tail : List RT), ∀ r ∈ splitL sep k (keepDefault sep keep) ps tail, top r = .multi k := by
+        intro ps
+        induction ps with
+        | nil =>
+          intro tail r hr
+          simp only [splitL] at hr
+          split at hr
+          · split at hr
+            · simp only [List.mem_singleton] at hr; subst hr; rfl
+            · cases hr
+          · cases hr
+        | cons part ps ih =>
+          intro tail r hr
+          simp only [splitL] at hr
+          split at hr
+          · exact ih tail r hr
+          · simp only [List.mem_append] at hr
+            rcases hr with hr | hr
+            · have : ∀ (items tail : List RT), ∀ r ∈ (splitItems k (keepDefault sep keep) items tail).1,
+                  top r = .multi k := by
+                intro items
+                induction items with
+                | nil => intro tail r hr; simp [splitItems] at hr
+                | cons item items ih3 =>
+                  intro tail r hr
+                  simp only [splitItems] at hr
+                  split at hr <;> simp only [List.mem_append] at hr <;> rcases hr with hr | hr
+                  · split at hr
+                    · simp only [List.mem_singleton] at hr; subst hr; rfl
+                    · cases hr
+                  · exact ih3 [] r hr
+                  · split at hr
+                    · simp only [List.mem_singleton] at hr; subst hr; rfl
+                    · cases hr
+                  · exact ih3 [] r hr
+              exact this _ _ r hr
+            · exact ih _ r hr
+      exact this ps tail r
+    cases k with
+    | prot => simp only [split, List.mem_singleton] at hr; subst hr; rfl
+    | text => simp only [split] at hr; exact key _ hr
+    | tag n => simp only [split] at hr; exact key _ hr
+    | href u e => simp only [split] at hr; exact key _ hr
+
+theorem abs_split_lit (c0 : Char) (t : RT) (keep : Option Bool) :
+    (split (.lit c0 []) t keep).map abs = Abs.split (.lit c0 []) (keepDefault (.lit c0 []) keep) (abs t) := by
+  unfold Abs.split
+  by_cases ht : top t = .symbol ∨ top t = .multi .prot
+  · rw [if_pos (by simpa using ht)]
+    cases t with
+    | str s => simp at ht
+    | sym n => simp [split]
+    | node k ps => simp only [top_node, Top.multi.injEq, reduceCtorEq, false_or] at ht; subst ht; simp [split]
+  · rw [if_neg (by simpa using ht)]
+    have ht' : top t ≠ .symbol ∧ top t ≠ .multi .prot := by
+      constructor <;> intro h <;> simp [h] at ht
+    have hs := sem_split_lit c0 t keep [] rfl ht'
+    have htop := top_split t (.lit c0 []) keep
+    simp only [keepF] at hs
+    rw [abs_atoms, ← hs, List.map_map]
+    apply List.map_congr_left
+    intro r hr
+    exact abs_ext (by simp [htop r hr]) rfl
+
+
+/-! ### histories -/
+
+/-- the operands of an operation are normal forms (they are objects) -/
+def Op.OperandsNormal : Op → Bool
+  | .add x => Normal x
+  | .radd x => Normal x
+  | .append x => Normal x
+  | .joinWith xs => xs.all Normal
+  | _ => true
+
+/-- the operations covered by the history theorem: everything except `split` at white space or
+at a separator of more than one character -/
+def Op.Covered : Op → Bool
+  | .splitPick (.lit _ []) _ _ => true
+  | .splitPick _ _ _ => false
+  | _ => true
+
+theorem getElem?_map_abs (ps : List RT) (i : Nat) : (ps.map abs)[i]? = ps[i]?.map abs := by
+  simp
+
+theorem step_abs (terms : List Str) (hT : ∀ x ∈ terms, x.length = 1) (t : RT) (ht : Normal t = true)
+    (op : Op) (hs : op.Covered = true) :
+    (step terms t op).map abs = Abs.step terms (abs t) op.abs := by
+  cases op with
+  | add x => simp [step, Abs.step, Op.abs, Except.map, abs_add]
+  | radd x => simp [step, Abs.step, Op.abs, Except.map, abs_add]
+  | append x => simp [step, Abs.step, Op.abs, Except.map, abs_append]
+  | joinWith xs => simp [step, Abs.step, Op.abs, Except.map, abs_join]
+  | slice i j => simp [step, Abs.step, Op.abs, Except.map, abs_getSlice]
+  | index i => simp only [step, Abs.step, Op.abs]; exact abs_getIndex t i
+  | upper => simp [step, Abs.step, Op.abs, Except.map, abs_upperT]
+  | lower => simp [step, Abs.step, Op.abs, Except.map, abs_lowerT]
+  | capfirst => simp [step, Abs.step, Op.abs, Except.map, abs_capfirst]
+  | capitalize => simp [step, Abs.step, Op.abs, Except.map, abs_capitalize]
+  | addPeriod =>
+    simp only [step, Abs.step, Op.abs, Except.map]
+    rw [abs_addPeriod terms hT _ t ht]; rfl
+  | splitPick sep keep pick =>
+    match sep, hs with
+    | .lit c0 [], _ =>
+      simp only [step, Abs.step, Op.abs]
+      rw [← abs_split_lit c0 t keep, List.length_map, getElem?_map_abs]
+      cases (split (Sep.lit c0 []) t keep)[pick % (split (Sep.lit c0 []) t keep).length]? <;> rfl
+
+theorem step_normal (terms : List Str) (t : RT) (ht : Normal t = true) (op : Op)
+    (ho : op.OperandsNormal = true) (hs : op.Covered = true) (r : RT) (hr : step terms t op = .ok r) :
+    Normal r = true := by
+  cases op with
+  | add x => simp only [step, Except.ok.injEq] at hr; subst hr; exact normal_add _ _ ht ho
+  | radd x => simp only [step, Except.ok.injEq] at hr; subst hr; exact normal_add _ _ ho ht
+  | append x => simp only [step, Except.ok.injEq] at hr; subst hr; exact normal_append _ _ ht ho
+  | joinWith xs =>
+    simp only [step, Except.ok.injEq] at hr; subst hr
+    exact normal_join _ _ ht (by simpa [Op.OperandsNormal] using ho)
+  | slice i j => simp only [step, Except.ok.injEq] at hr; subst hr; exact normal_getSlice t ht i j
+  | index i => exact normal_getIndex t ht i r hr
+  | upper => simp only [step, Except.ok.injEq] at hr; subst hr; exact normal_caseMap _ _ ht
+  | lower => simp only [step, Except.ok.injEq] at hr; subst hr; exact normal_caseMap _ _ ht
+  | capfirst => simp only [step, Except.ok.injEq] at hr; subst hr; exact normal_capfirst t ht
+  | capitalize => simp only [step, Except.ok.injEq] at hr; subst hr; exact normal_capitalize t ht
+  | addPeriod => simp only [step, Except.ok.injEq] at hr; subst hr; exact normal_addPeriod _ _ t ht rfl
+  | splitPick sep keep pick =>
+    simp only [step] at hr
+    split at hr
+    · rename_i p hp
+      simp only [Except.ok.injEq] at hr; subst hr
+      exact normal_split t ht sep keep p (List.mem_of_getElem? hp)
+    · simp only [Except.ok.injEq] at hr; subst hr; exact ht
+
+theorem run_abs (terms : List Str) (hT : ∀ x ∈ terms, x.length = 1) (ops : List Op) :
+    ∀ (t : RT), Normal t = true → (∀ op ∈ ops, op.OperandsNormal = true ∧ op.Covered = true) →
+    (run terms t ops).map (Except.map abs) = Abs.run terms (abs t) (ops.map Op.abs) := by
+  induction ops with
+  | nil => intro t _ _; rfl
+  | cons op ops ih =>
+    intro t ht ho
+    have h1 := ho op (by simp)
+    have hstep := step_abs terms hT t ht op h1.2
+    simp only [run, Abs.run, List.map_cons]
+    cases hr : step terms t op with
+    | ok r =>
+      rw [hr] at hstep
+      simp only [Except.map] at hstep
+      rw [← hstep]
+      simp only [List.map_cons, Except.map]
+      rw [ih r (step_normal terms t ht op h1.1 h1.2 r hr) (fun o ho' => ho o (by simp [ho']))]
+    | error e =>
+      rw [hr] at hstep
+      simp only [Except.map] at hstep
+      rw [← hstep]
+      simp only [List.map_cons, Except.map]
+      rw [ih t ht (fun o ho' => ho o (by simp [ho']))]
+
+
+/-! ### the denotation is injective on normal forms -/
+
+theorem takeWhile_append_of_all {α : Type} (P : α → Bool) (A B : List α) (hA : ∀ x ∈ A, P x = true)
+    (hB : ∀ y, B.head? = some y → P y = false) :
+    (A ++ B).takeWhile P = A ∧ (A ++ B).dropWhile P = B := by
+  induction A with
+  | nil =>
+    cases B with
+    | nil => simp
+    | cons b B => simp [hB b rfl]
+  | cons a A ih =>
+    have := ih (fun x hx => hA x (by simp [hx]))
+    simp [hA a (by simp), this.1, this.2]
+
+theorem append_unique {α : Type} (P : α → Bool) (A₁ B₁ A₂ B₂ : List α)
+    (hA₁ : ∀ x ∈ A₁, P x = true) (hB₁ : ∀ y, B₁.head? = some y → P y = false)
+    (hA₂ : ∀ x ∈ A₂, P x = true) (hB₂ : ∀ y, B₂.head? = some y → P y = false)
+    (h : A₁ ++ B₁ = A₂ ++ B₂) : A₁ = A₂ ∧ B₁ = B₂ := by
+  have h1 := takeWhile_append_of_all P A₁ B₁ hA₁ hB₁
+  have h2 := takeWhile_append_of_all P A₂ B₂ hA₂ hB₂
+  rw [h] at h1
+  exact ⟨h1.1.symm.trans h2.1, h1.2.symm.trans h2.2⟩
+
+def Pstr (ctx : List Markup) (x : Atom × List Markup) : Bool :=
+  (match x.1 with | .ch _ => true | .sym _ => false) && x.2 == ctx
+
+def Pnode (ctx : List Markup) (m : Markup) (x : Atom × List Markup) : Bool :=
+  (ctx ++ [m]).isPrefixOf x.2
+
+theorem isPrefixOf_append_self (ctx a b : List Markup) :
+    (ctx ++ a).isPrefixOf (ctx ++ b) = a.isPrefixOf b := by
+  induction ctx with
+  | nil => rfl
+  | cons c ctx ih => simp [ih]
+
+theorem isPrefixOf_longer (a b : List Markup) (h : b.length < a.length) : a.isPrefixOf b = false := by
+  induction a generalizing b with
+  | nil => simp at h
+  | cons x a ih =>
+    cases b with
+    | nil => rfl
+    | cons y b =>
+      simp only [List.isPrefixOf, Bool.and_eq_false_imp]
+      intro _; exact ih b (by simpa using h)
+
+/-- the markup of a kind that is not `Text` is a single element that determines the kind -/
+theorem markup_single (k : Kind) (h : k ≠ .text) : ∃ m, k.markup = [m] := by
+  cases k with
+  | text => exact absurd rfl h
+  | tag n => exact ⟨_, rfl⟩
+  | href u e => exact ⟨_, rfl⟩
+  | prot => exact ⟨_, rfl⟩
+
+theorem markup_inj (k k' : Kind) (h : k.markup = k'.markup) (hk : k ≠ .text) : k = k' := by
+  cases k <;> cases k' <;> simp_all [Kind.markup]
+
+theorem not_text_of_partOK {k : Kind} {ps : List RT} (h : PartOK (.node k ps)) : k ≠ .text := by
+  intro hk; subst hk; simp [PartOK, isText] at h
+
+theorem sem_ne_nil_of_partOK (ctx : List Markup) {p : RT} (h : PartOK p) : sem ctx p ≠ [] := by
+  intro hs
+  have := congrArg List.length hs
+  rw [sem_length] at this
+  exact h.1 (by simpa using this)
+
+theorem mem_semL_stack (c : List Markup) (l : List RT) : ∀ x ∈ semL c l, ∃ r, x.2 = c ++ r := by
+  intro x hx
+  rw [semL_ctx] at hx
+  simp only [Flat.push, List.mem_map] at hx
+  obtain ⟨y, _, rfl⟩ := hx
+  exact ⟨y.2, rfl⟩
+
+theorem all_Pstr (ctx : List Markup) (s : Str) : ∀ x ∈ sem ctx (.str s), Pstr ctx x = true := by
+  intro x hx
+  simp only [sem, List.mem_map] at hx
+  obtain ⟨c, _, rfl⟩ := hx
+  simp [Pstr]
+
+theorem all_Pnode (ctx : List Markup) (k : Kind) (m : Markup) (hm : k.markup = [m]) (ps : List RT) :
+    ∀ x ∈ sem ctx (.node k ps), Pnode ctx m x = true := by
+  intro x hx
+  simp only [sem, hm] at hx
+  obtain ⟨r, hr⟩ := mem_semL_stack _ _ x hx
+  simp only [Pnode, hr]
+  have := isPrefixOf_append_self (ctx ++ [m]) [] r
+  rw [List.append_nil] at this
+  rw [this]; rfl
+
+/-- the first pair of a part that is not a `String` does not continue a run of plain characters -/
+theorem head_not_Pstr (ctx : List Markup) (q : RT) (hq : PartOK q) (ht : typeInfo q ≠ .string) :
+    ∀ y, (sem ctx q).head? = some y → Pstr ctx y = false := by
+  intro y hy
+  have hmem : y ∈ sem ctx q := List.mem_of_mem_head? hy
+  cases q with
+  | str s => simp [typeInfo] at ht
+  | sym n => simp only [sem, List.mem_singleton] at hmem; subst hmem; simp [Pstr]
+  | node k ps =>
+    obtain ⟨m, hm⟩ := markup_single k (not_text_of_partOK hq)
+    simp only [sem, hm] at hmem
+    obtain ⟨r, hr⟩ := mem_semL_stack _ _ y hmem
+    simp only [Pstr, hr, Bool.and_eq_false_imp]
+    intro _
+    simp only [beq_eq_false_iff_ne, ne_eq]
+    intro h
+    have := congrArg List.length h
+    simp at this
+
+/-- the first pair of a part with another type info is not inside the markup `ctx ++ [m]` -/
+theorem head_not_Pnode (ctx : List Markup) (k : Kind) (m : Markup) (hm : k.markup = [m]) (q : RT)
+    (hq : PartOK q) (ht : typeInfo q ≠ .multi k) :
+    ∀ y, (sem ctx q).head? = some y → Pnode ctx m y = false := by
+  intro y hy
+  have hmem : y ∈ sem ctx q := List.mem_of_mem_head? hy
+  cases q with
+  | str s =>
+    simp only [sem, List.mem_map] at hmem
+    obtain ⟨c, _, rfl⟩ := hmem
+    exact isPrefixOf_longer _ _ (by simp)
+  | sym n =>
+    simp only [sem, List.mem_singleton] at hmem; subst hmem
+    exact isPrefixOf_longer _ _ (by simp)
+  | node k' ps =>
+    have hk' := not_text_of_partOK hq
+    obtain ⟨m', hm'⟩ := markup_single k' hk'
+    simp only [sem, hm'] at hmem
+    obtain ⟨r, hr⟩ := mem_semL_stack _ _ y hmem
+    have hne : m ≠ m' := by
+      intro h; subst h
+      have : k' = k := markup_inj k' k (by rw [hm', hm]) hk'
+      subst this; exact ht rfl
+    simp only [Pnode, hr, List.append_assoc, isPrefixOf_append_self]
+    simp [List.isPrefixOf, hne]
+
+theorem head?_semL_cons (ctx : List Markup) (q : RT) (r : List RT) (hq : PartOK q) :
+    (semL ctx (q :: r)).head? = (sem ctx q).head? := by
+  simp only [semL]
+  cases h : sem ctx q with
+  | nil => exact absurd h (sem_ne_nil_of_partOK ctx hq)
+  | cons x xs => rfl
+
+/-- what follows a part in a normal list does not continue it -/
+theorem next_fails (ctx : List Markup) (P : Atom × List Markup → Bool) (p : RT) (r : List RT)
+    (hr : ∀ q ∈ r, PartOK q) (hadj : noAdjacentSimilar (p :: r) = true)
+    (hP : ∀ q, PartOK q → mergeable p q = false → ∀ y, (sem ctx q).head? = some y → P y = false) :
+    ∀ y, (semL ctx r).head? = some y → P y = false := by
+  cases r with
+  | nil => intro y hy; simp [semL] at hy
+  | cons q r =>
+    intro y hy
+    rw [head?_semL_cons ctx q r (hr q (by simp))] at hy
+    simp only [noAdjacentSimilar, Bool.and_eq_true, Bool.not_eq_true'] at hadj
+    exact hP q (hr q (by simp)) hadj.1 y hy
+
+theorem noAdj_tail {p : RT} {r : List RT} (h : noAdjacentSimilar (p :: r) = true) : noAdjacentSimilar r = true := by
+  cases r with
+  | nil => rfl
+  | cons q r => simp only [noAdjacentSimilar, Bool.and_eq_true] at h; exact h.2
+
+theorem typeInfo_of_not_mergeable_str {s : Str} {q : RT} (h : mergeable (.str s) q = false) :
+    typeInfo q ≠ .string := by
+  cases q <;> simp_all [mergeable, typeInfo]
+
+theorem typeInfo_of_not_mergeable_node {k : Kind} {ps : List RT} {q : RT}
+    (h : mergeable (.node k ps) q = false) : typeInfo q ≠ .multi k := by
+  cases q <;> simp_all [mergeable, typeInfo]
+  intro h'; exact h h'.symm
+
+theorem map_ch_inj (ctx : List Markup) (s s' : Str)
+    (h : s.map (fun c => ((Atom.ch c, ctx) : Atom × List Markup)) = s'.map (fun c => (Atom.ch c, ctx))) : s = s' := by
+  induction s generalizing s' with
+  | nil => cases s' <;> simp_all
+  | cons c s ih =>
+    cases s' with
+    | nil => simp at h
+    | cons c' s' =>
+      simp only [List.map_cons, List.cons.injEq, Prod.mk.injEq, Atom.ch.injEq, and_true] at h
+      rw [h.1, ih s' h.2]
+
+theorem semL_inj : ∀ n, ∀ l₁, sizeL l₁ ≤ n → ∀ ctx l₂,
+    (∀ p ∈ l₁, PartOK p) → noAdjacentSimilar l₁ = true →
+    (∀ p ∈ l₂, PartOK p) → noAdjacentSimilar l₂ = true →
+    semL ctx l₁ = semL ctx l₂ → l₁ = l₂ := by
+  intro n
+  induction n with
+  | zero =>
+    intro l₁ hsz ctx l₂ h₁ _ h₂ _ he
+    cases l₁ with
+    | cons p r => have := size_pos p; simp only [sizeL] at hsz; omega
+    | nil =>
+      cases l₂ with
+      | nil => rfl
+      | cons q r =>
+        exfalso
+        have := sem_ne_nil_of_partOK ctx (h₂ q (by simp))
+        simp only [semL] at he
+        cases hq : sem ctx q with
+        | nil => exact this hq
+        | cons x xs => rw [hq] at he; simp at he
+  | succ n ih =>
+    intro l₁ hsz ctx l₂ h₁ a₁ h₂ a₂ he
+    cases l₁ with
+    | nil =>
+      cases l₂ with
+      | nil => rfl
+      | cons q r =>
+        exfalso
+        have := sem_ne_nil_of_partOK ctx (h₂ q (by simp))
+        simp only [semL] at he
+        cases hq : sem ctx q with
+        | nil => exact this hq
+        | cons x xs => rw [hq] at he; simp at he
+    | cons p r₁ =>
+      cases l₂ with
+      | nil =>
+        exfalso
+        have := sem_ne_nil_of_partOK ctx (h₁ p (by simp))
+        simp only [semL] at he
+        cases hp : sem ctx p with
+        | nil => exact this hp
+        | cons x xs => rw [hp] at he; simp at he
+      | cons q r₂ =>
+        have hp := h₁ p (by simp)
+        have hq := h₂ q (by simp)
+        have hr₁ : ∀ x ∈ r₁, PartOK x := fun x hx => h₁ x (by simp [hx])
+        have hr₂ : ∀ x ∈ r₂, PartOK x := fun x hx => h₂ x (by simp [hx])
+        have hsz' : sizeL r₁ ≤ n := by have := size_pos p; simp only [sizeL] at hsz; omega
+        -- the first pairs agree
+        have hhead : (sem ctx p).head? = (sem ctx q).head? := by
+          rw [← head?_semL_cons ctx p r₁ hp, ← head?_semL_cons ctx q r₂ hq, he]
+        simp only [semL] at he
+        cases p with
+        | str s =>
+          cases q with
+          | str s' =>
+            have := append_unique (Pstr ctx) _ _ _ _ (all_Pstr ctx s)
+              (next_fails ctx _ _ r₁ hr₁ a₁ (fun q' hq' hm => head_not_Pstr ctx q' hq' (typeInfo_of_not_mergeable_str hm)))
+              (all_Pstr ctx s')
+              (next_fails ctx _ _ r₂ hr₂ a₂ (fun q' hq' hm => head_not_Pstr ctx q' hq' (typeInfo_of_not_mergeable_str hm))) he
+            have hs : s = s' := by
+              have h1 := this.1
+              simp only [sem] at h1
+              exact map_ch_inj ctx s s' h1
+            rw [hs, ih r₁ hsz' ctx r₂ hr₁ (noAdj_tail a₁) hr₂ (noAdj_tail a₂) this.2]
+          | sym n' =>
+            exfalso
+            cases s with
+            | nil => simp [PartOK, len] at hp
+            | cons c s => simp [sem] at hhead
+          | node k' qs =>
+            exfalso
+            cases s with
+            | nil => simp [PartOK, len] at hp
+            | cons c s =>
+              have hy := head_not_Pstr ctx (.node k' qs) hq (by simp [typeInfo]) (Atom.ch c, ctx)
+                (by rw [← hhead]; simp [sem])
+              simp [Pstr] at hy
+        | sym n₁ =>
+          cases q with
+          | str s' =>
+            exfalso
+            cases s' with
+            | nil => simp [PartOK, len] at hq
+            | cons c s => simp [sem] at hhead
+          | sym n' =>
+            simp only [sem, List.cons_append, List.nil_append, List.cons.injEq, Prod.mk.injEq, Atom.sym.injEq,
+              and_true] at he
+            rw [he.1, ih r₁ hsz' ctx r₂ hr₁ (noAdj_tail a₁) hr₂ (noAdj_tail a₂) he.2]
+          | node k' qs =>
+            exfalso
+            have hy := head_not_Pstr ctx (.node k' qs) hq (by simp [typeInfo])
+            obtain ⟨m', hm'⟩ := markup_single k' (not_text_of_partOK hq)
+            cases hs : sem ctx (.node k' qs) with
+            | nil => exact sem_ne_nil_of_partOK ctx hq hs
+            | cons y ys =>
+              rw [hs] at hhead
+              simp only [sem, List.head?_cons, Option.some.injEq] at hhead
+              have hmem : y ∈ sem ctx (.node k' qs) := by rw [hs]; simp
+              simp only [sem, hm'] at hmem
+              obtain ⟨r, hr⟩ := mem_semL_stack _ _ y hmem
+              rw [← hhead] at hr
+              have := congrArg List.length hr
+              simp at this
+        | node k ps =>
+          obtain ⟨m, hm⟩ := markup_single k (not_text_of_partOK hp)
+          have hfirst : ∃ y ys, sem ctx (.node k ps) = y :: ys := by
+            cases hs : sem ctx (.node k ps) with
+            | nil => exact absurd hs (sem_ne_nil_of_partOK ctx hp)
+            | cons y ys => exact ⟨y, ys, rfl⟩
+          obtain ⟨y, ys, hys⟩ := hfirst
+          have hyP : Pnode ctx m y = true := all_Pnode ctx k m hm ps y (by rw [hys]; simp)
+          have hyq : (sem ctx q).head? = some y := by rw [← hhead, hys]; rfl
+          have hqk : typeInfo q = .multi k := by
+            apply Classical.byContradiction
+            intro hne
+            have := head_not_Pnode ctx k m hm q hq hne y hyq
+            rw [hyP] at this; cases this
+          cases q with
+          | str s' => simp [typeInfo] at hqk
+          | sym n' => simp [typeInfo] at hqk
+          | node k' qs =>
+            simp only [typeInfo, TypeInfo.multi.injEq] at hqk
+            subst hqk
+            have := append_unique (Pnode ctx m) _ _ _ _ (all_Pnode ctx k' m hm ps)
+              (next_fails ctx _ _ r₁ hr₁ a₁ (fun q' hq' hmg => head_not_Pnode ctx k' m hm q' hq' (typeInfo_of_not_mergeable_node hmg)))
+              (all_Pnode ctx k' m hm qs)
+              (next_fails ctx _ _ r₂ hr₂ a₂ (fun q' hq' hmg => head_not_Pnode ctx k' m hm q' hq' (typeInfo_of_not_mergeable_node hmg))) he
+            have hnp := (normal_node k' ps).1 hp.2.2
+            have hnq := (normal_node k' qs).1 hq.2.2
+            have hps : ps = qs := by
+              have h1 := this.1
+              simp only [sem] at h1
+              have hszp : sizeL ps ≤ n := by simp only [sizeL, size] at hsz; omega
+              exact ih ps hszp _ qs hnp.1 hnp.2 hnq.1 hnq.2 h1
+            rw [hps, ih r₁ hsz' ctx r₂ hr₁ (noAdj_tail a₁) hr₂ (noAdj_tail a₂) this.2]
+
+/-- two normal forms with the same class and the same string of pairs are the same tree -/
+theorem abs_inj (a b : RT) (ha : Normal a = true) (hb : Normal b = true) (h : abs a = abs b) : a = b := by
+  have htop : top a = top b := congrArg Abs.top h
+  have hsem : sem [] a = sem [] b := congrArg Abs.atoms h
+  cases a with
+  | str s =>
+    cases b with
+    | str s' =>
+      simp only [sem] at hsem
+      rw [map_ch_inj [] s s' hsem]
+    | sym n => simp at htop
+    | node k ps => simp at htop
+  | sym n =>
+    cases b with
+    | str s' => simp at htop
+    | sym n' => simp only [sem, List.cons.injEq, Prod.mk.injEq, Atom.sym.injEq, and_true] at hsem; rw [hsem]
+    | node k ps => simp at htop
+  | node k ps =>
+    cases b with
+    | str s' => simp at htop
+    | sym n' => simp at htop
+    | node k' qs =>
+      simp only [top_node, Top.multi.injEq] at htop
+      subst htop
+      simp only [sem] at hsem
+      have hna := (normal_node k ps).1 ha
+      have hnb := (normal_node k qs).1 hb
+      rw [semL_inj _ ps (Nat.le_refl _) _ qs hna.1 hna.2 hnb.1 hnb.2 hsem]
+
+
+/-! ### `startswith`, `endswith`, `in`: what a positive answer means for the string of pairs -/
+
+theorem isPrefixOf_iff_take (p s : Str) : p.isPrefixOf s = true ↔ p.length ≤ s.length ∧ s.take p.length = p := by
+  induction p generalizing s with
+  | nil => simp
+  | cons a p ih =>
+    cases s with
+    | nil => simp
+    | cons b s =>
+      simp only [List.isPrefixOf, Bool.and_eq_true, beq_iff_eq, ih, List.length_cons, List.take_succ_cons,
+        List.cons.injEq]
+      constructor
+      · rintro ⟨rfl, h1, h2⟩; exact ⟨by omega, rfl, h2⟩
+      · rintro ⟨h1, rfl, h2⟩; exact ⟨rfl, by omega, h2⟩
+
+theorem spells_str (ctx : List Markup) (p : Str) : Flat.spells p (sem ctx (.str p)) = true := by
+  simp only [Flat.spells, sem, List.map_map, Bool.and_eq_true, beq_iff_eq]
+  constructor
+  · simp [Function.comp_def]
+  · cases p with
+    | nil => rfl
+    | cons c p => simp
+
+theorem startsWith1_str (ctx : List Markup) (p s : Str) (hs : s ≠ []) (h : p.isPrefixOf s = true) :
+    Flat.startsWith1 p (sem ctx (.str s)) = true := by
+  obtain ⟨h1, h2⟩ := (isPrefixOf_iff_take p s).1 h
+  cases s with
+  | nil => exact absurd rfl hs
+  | cons c s =>
+    have : (sem ctx (.str (c :: s))).take p.length = sem ctx (.str p) := by
+      simp only [sem, ← List.map_take, h2]
+    simp only [Flat.startsWith1, sem, List.map_cons, List.length_cons, List.length_map, Bool.true_and,
+      Bool.and_eq_true, decide_eq_true_eq]
+    refine ⟨by simpa using h1, ?_⟩
+    have h3 := spells_str ctx p
+    rw [← this] at h3
+    simpa [sem] using h3
+
+theorem startsWith1_append (p : Str) (A B : Flat) (h : Flat.startsWith1 p A = true) :
+    Flat.startsWith1 p (A ++ B) = true := by
+  cases A with
+  | nil => simp [Flat.startsWith1] at h
+  | cons x A =>
+    simp only [Flat.startsWith1, Bool.and_eq_true, decide_eq_true_eq, List.cons_append, List.length_cons,
+      List.length_append] at h ⊢
+    refine ⟨⟨h.1.1, by omega⟩, ?_⟩
+    have : ((x :: A) ++ B).take p.length = (x :: A).take p.length :=
+      List.take_append_of_le_length (by simpa using h.1.2)
+    simp only [List.cons_append] at this
+    rw [this]; exact h.2
+
+theorem startsWith_sound (ps : List Str) (t : RT) : ∀ ctx, Normal t = true → startsWith ps t = true →
+    Flat.startsWith ps (sem ctx t) = true ∨ (t = .str [] ∧ [] ∈ ps) := by
+  induction t using RT.induct with
+  | hstr s =>
+    intro ctx _ h
+    simp only [startsWith, List.any_eq_true] at h
+    obtain ⟨p, hp, hps⟩ := h
+    cases s with
+    | nil =>
+      right
+      have : p = [] := by cases p <;> simp_all [List.isPrefixOf]
+      subst this; exact ⟨rfl, hp⟩
+    | cons c s =>
+      left
+      simp only [Flat.startsWith, List.any_eq_true]
+      exact ⟨p, hp, startsWith1_str ctx p (c :: s) (by simp) hps⟩
+  | hsym n => intro ctx _ h; simp [startsWith] at h
+  | hnode k ps' ih =>
+    intro ctx hn h
+    left
+    cases ps' with
+    | nil => simp [startsWith, startsWithL] at h
+    | cons p r =>
+      simp only [startsWith, startsWithL] at h
+      have hpOK := ((normal_node k (p :: r)).1 hn).1 p (by simp)
+      rcases ih p (by simp) (ctx ++ k.markup) hpOK.2.2 h with h1 | ⟨h1, _⟩
+      · simp only [Flat.startsWith, List.any_eq_true, sem, semL] at h1 ⊢
+        obtain ⟨q, hq, hq2⟩ := h1
+        exact ⟨q, hq, startsWith1_append q _ _ hq2⟩
+      · subst h1; simp [PartOK, len] at hpOK
+
+theorem hasWindow_append_left (p : Str) (A B : Flat) (h : Flat.hasWindow p A = true) :
+    Flat.hasWindow p (A ++ B) = true := by
+  induction A with
+  | nil => simp [Flat.hasWindow] at h
+  | cons x A ih =>
+    simp only [Flat.hasWindow, List.cons_append, Bool.or_eq_true, Bool.and_eq_true, decide_eq_true_eq] at h ⊢
+    rcases h with ⟨h1, h2⟩ | h
+    · left
+      refine ⟨by simp only [List.length_cons, List.length_append] at h1 ⊢; omega, ?_⟩
+      have : ((x :: A) ++ B).take p.length = (x :: A).take p.length := List.take_append_of_le_length h1
+      simp only [List.cons_append] at this
+      rw [this]; exact h2
+    · right; exact ih h
+
+theorem hasWindow_append_right (p : Str) (A B : Flat) (h : Flat.hasWindow p B = true) :
+    Flat.hasWindow p (A ++ B) = true := by
+  induction A with
+  | nil => simpa using h
+  | cons x A ih => simp only [Flat.hasWindow, List.cons_append, Bool.or_eq_true]; right; exact ih
+
+theorem hasWindow_str (ctx : List Markup) (item s : Str) (hi : item ≠ []) (h : isInfix item s = true) :
+    Flat.hasWindow item (sem ctx (.str s)) = true := by
+  induction s with
+  | nil => cases item <;> simp_all [isInfix]
+  | cons c s ih =>
+    simp only [isInfix, Bool.or_eq_true] at h
+    rcases h with h | h
+    · have := startsWith1_str ctx item (c :: s) (by simp) h
+      simp only [Flat.startsWith1, sem, List.map_cons, Bool.true_and, Bool.and_eq_true] at this
+      simp only [sem, List.map_cons, Flat.hasWindow, Bool.or_eq_true, Bool.and_eq_true]
+      left; exact this
+    · have := ih h
+      simp only [sem, List.map_cons, Flat.hasWindow, Bool.or_eq_true] at this ⊢
+      right; exact this
+
+theorem contains_sound (item : Str) (hi : item ≠ []) (t : RT) : ∀ ctx, contains item t = true →
+    Flat.hasWindow item (sem ctx t) = true := by
+  induction t using RT.induct with
+  | hstr s => intro ctx h; exact hasWindow_str ctx item s hi h
+  | hsym n => intro ctx h; simp [contains] at h
+  | hnode k ps ih =>
+    intro ctx h
+    have hie : item.isEmpty = false := by cases item <;> simp_all
+    simp only [contains, hie, Bool.false_or] at h
+    simp only [sem]
+    generalize ctx ++ k.markup = c
+    induction ps with
+    | nil => simp [containsL] at h
+    | cons p ps ih2 =>
+      simp only [containsL, Bool.or_eq_true] at h
+      simp only [semL]
+      rcases h with h | h
+      · exact hasWindow_append_left _ _ _ (ih p (by simp) c h)
+      · exact hasWindow_append_right _ _ _ (ih2 (fun q hq => ih q (by simp [hq])) h)
+
+
+theorem isSuffixOf_iff_drop (p s : Str) :
+    p.isSuffixOf s = true ↔ p.length ≤ s.length ∧ s.drop (s.length - p.length) = p := by
+  simp only [List.isSuffixOf, isPrefixOf_iff_take, List.length_reverse]
+  constructor
+  · rintro ⟨h1, h2⟩
+    refine ⟨h1, ?_⟩
+    rw [List.take_reverse] at h2
+    have := congrArg List.reverse h2
+    simpa using this
+  · rintro ⟨h1, h2⟩
+    refine ⟨h1, ?_⟩
+    rw [List.take_reverse, h2]
+
+theorem endsWith1_str (ctx : List Markup) (p s : Str) (hs : s ≠ []) (h : p.isSuffixOf s = true) :
+    Flat.endsWith1 p (sem ctx (.str s)) = true := by
+  obtain ⟨h1, h2⟩ := (isSuffixOf_iff_drop p s).1 h
+  have hlast : ∃ c, s.getLast? = some c := by
+    cases hl : s.getLast? with
+    | none => simp [List.getLast?_eq_none_iff] at hl; exact absurd hl hs
+    | some c => exact ⟨c, rfl⟩
+  obtain ⟨c, hc⟩ := hlast
+  have hd : (sem ctx (.str s)).drop ((sem ctx (.str s)).length - p.length) = sem ctx (.str p) := by
+    simp only [sem, List.length_map, ← List.map_drop, h2]
+  simp only [Flat.endsWith1]
+  have hg : (sem ctx (.str s)).getLast? = some (Atom.ch c, ctx) := by simp [sem, List.getLast?_map, hc]
+  rw [hg]
+  simp only [Bool.true_and, Bool.and_eq_true, decide_eq_true_eq]
+  refine ⟨by simpa [sem] using h1, ?_⟩
+  rw [hd]; exact spells_str ctx p
+
+theorem endsWith1_append (p : Str) (A B : Flat) (h : Flat.endsWith1 p B = true) :
+    Flat.endsWith1 p (A ++ B) = true := by
+  have hB : B ≠ [] := by intro hb; subst hb; simp [Flat.endsWith1] at h
+  simp only [Flat.endsWith1] at h ⊢
+  rw [getLast?_append_of_ne_nil A B hB]
+  cases hl : B.getLast? with
+  | none => rw [hl] at h; simp at h
+  | some x =>
+    rw [hl] at h
+    simp only [Bool.and_eq_true, decide_eq_true_eq, List.length_append] at h ⊢
+    refine ⟨⟨h.1.1, by omega⟩, ?_⟩
+    have : (A ++ B).drop (A.length + B.length - p.length) = B.drop (B.length - p.length) := by
+      have e : A.length + B.length - p.length = A.length + (B.length - p.length) := by omega
+      rw [e, List.drop_append]
+      have : A.drop (A.length + (B.length - p.length)) = [] := List.drop_of_length_le (by omega)
+      rw [this]; simp
+    rw [this]; exact h.2
+
+theorem endsWith_sound (ps : List Str) (t : RT) : ∀ ctx, Normal t = true → endsWith ps t = true →
+    Flat.endsWith ps (sem ctx t) = true ∨ (t = .str [] ∧ [] ∈ ps) := by
+  induction t using RT.induct with
+  | hstr s =>
+    intro ctx _ h
+    simp only [endsWith, List.any_eq_true] at h
+    obtain ⟨p, hp, hps⟩ := h
+    cases s with
+    | nil =>
+      right
+      have : p = [] := by
+        have := ((isSuffixOf_iff_drop p []).1 hps).1
+        cases p <;> simp_all
+      subst this; exact ⟨rfl, hp⟩
+    | cons c s =>
+      left
+      simp only [Flat.endsWith, List.any_eq_true]
+      exact ⟨p, hp, endsWith1_str ctx p (c :: s) (by simp) hps⟩
+  | hsym n => intro ctx _ h; simp [endsWith] at h
+  | hnode k ps' ih =>
+    intro ctx hn h
+    left
+    simp only [endsWith] at h
+    simp only [sem]
+    have hOK := ((normal_node k ps').1 hn).1
+    generalize ctx ++ k.markup = c
+    clear hn
+    induction ps' with
+    | nil => simp [endsWithL] at h
+    | cons p r ih2 =>
+      cases r with
+      | nil =>
+        simp only [endsWithL] at h
+        rcases ih p (by simp) c (hOK p (by simp)).2.2 h with h1 | ⟨h1, _⟩
+        · simpa [semL] using h1
+        · subst h1; have := hOK (.str []) (by simp); simp [PartOK, len] at this
+      | cons q r =>
+        simp only [endsWithL] at h
+        have := ih2 (fun x hx => ih x (by simp [hx])) h (fun x hx => hOK x (by simp [hx]))
+        simp only [Flat.endsWith, List.any_eq_true] at this ⊢
+        obtain ⟨s, hs, hs2⟩ := this
+        refine ⟨s, hs, ?_⟩
+        have e : semL c (p :: q :: r) = sem c p ++ semL c (q :: r) := rfl
+        rw [e]
+        exact endsWith1_append s _ _ hs2
+
+
+/-! ### extra facts used by the property theorems -/
+
+theorem mapCase_strSlice (f : Char → Char) (s : Flat) (i j : Option Int) :
+    Flat.mapCase f (strSlice s i j) = strSlice (Flat.mapCase f s) i j := by
+  simp only [Flat.mapCase]; exact strSlice_map _ s i j
+
+theorem mapCase_isEmpty (f : Char → Char) (s : Flat) : (Flat.mapCase f s).isEmpty = s.isEmpty := by
+  cases s <;> simp [Flat.mapCase]
+
+theorem abs_caseMap_slice (f : Char → Char) (a : Abs) (i j : Option Int) :
+    Abs.caseMap f (Abs.slice a i j) = Abs.slice (Abs.caseMap f a) i j := by
+  have he : (Flat.slice (Flat.mapCase f a.atoms) i j).isEmpty = (Flat.slice a.atoms i j).isEmpty := by
+    simp only [Flat.slice]; rw [← mapCase_strSlice, mapCase_isEmpty]
+  have hs : Flat.mapCase f (Flat.slice a.atoms i j) = Flat.slice (Flat.mapCase f a.atoms) i j :=
+    mapCase_strSlice f a.atoms i j
+  simp only [Abs.caseMap, Abs.slice, he, hs]
+
+theorem abs_caseMap_add (f : Char → Char) (a b : Abs) :
+    Abs.caseMap f (Abs.add a b) = Abs.add (Abs.caseMap f a) (Abs.caseMap f b) := by
+  simp [Abs.caseMap, Abs.add, mapCase_append]
+
+theorem top_build (t : RT) : top (build t) = top t := by
+  cases t <;> simp [build]
+
+theorem abs_build (t : RT) : abs (build t) = abs t :=
+  abs_ext (top_build t) (sem_build t [])
+
+theorem joinWith_splitOnP {α : Type} (p : α → Bool) (x : α) (s : List α) :
+    joinWith [x] (splitOnP p s) = s.map fun y => if p y then x else y := by
+  induction s with
+  | nil => simp [splitOnP, joinWith]
+  | cons a s ih =>
+    by_cases h : p a = true
+    · rw [splitOnP_cons_true p a s h]
+      cases hs : splitOnP p s with
+      | nil => exact absurd hs (splitOnP_ne_nil p s)
+      | cons seg segs =>
+        rw [hs] at ih
+        simp only [joinWith, List.nil_append, List.singleton_append, List.map_cons, h, if_true, ih]
+    · have h' : p a = false := by simpa using h
+      rw [splitOnP_cons_false p a s h']
+      cases hs : splitOnP p s with
+      | nil => exact absurd hs (splitOnP_ne_nil p s)
+      | cons seg segs =>
+        rw [hs] at ih
+        cases segs with
+        | nil => simp only [joinWith] at ih; simp [mapHead, joinWith, h', ih]
+        | cons seg2 segs =>
+          simp only [joinWith] at ih
+          simp only [mapHead, joinWith, List.map_cons, h', Bool.false_eq_true, if_false, List.cons_append, ← ih]
+
 end RT
 end Pybtex
